@@ -12,797 +12,362 @@ Definition show_fres (r : fres) : string :=
   end.
 Definition check (rs : list rune) : string := digest (show_fres (format_res rs)).
 Definition full (rs : list rune) : string := show_fres (format_res rs).
-Eval vm_compute in ("<<<M434>>>" ++ check (runes_of_ascii "  packet u { repeat Packet
-    `
-` , string	x @calculatedFrom( ""x y"" )
-`say ""hi""` , @tag( 42) repeat
-stringy
-, match len	as
-    /// triple
-    u {
-[7 ,""it's""// " ++ [27880; 37322]%N ++ runes_of_ascii "
-, 10 ,""a\\"" , 0, ""1""
-] :float ,
-    ""a	b""
-: Foo , }
-// `tick` ""quote"" 'q'
-// c
-, float ,repeat calculatedFrom
-{ uint64
-    body
+Eval vm_compute in ("<<<M2085>>>" ++ check (runes_of_ascii "  packet 
+body{
+
+    chars  //x
+  `two words` 
 ,
-    char[] uint8x
-, int32 len ,f32a
-@calculatedFrom( """ ++ [28040; 24687]%N ++ runes_of_ascii """
-)
-, }	, @leftPad ( /// triple
-'\x00'
-    )
-    string
-    body , match// " ++ [128512]%N ++ runes_of_ascii " emoji
-msg_type as
-    As	{	[ """ ++ [128512]%N ++ runes_of_ascii """ ,
-    // packet A { u8 x, }
-    ""abc""
-// @lengthOf(
-/// triple
-]
-    : msg_type // @lengthOf(
-, [0123456789
-    // trailing space 
-    ,  10 ]:
-A, ""1"": Foo , 7:
-    string_ ,	""`tick`"" :	string_ 007	: int, }
-,
-}
-    packet BodyLength
-    {// trailing space 
-match crc as Pad// `tick` ""quote"" 'q'
-{
-    [0123456789 , ""\n"" , ""x y"" ,
-""\n"" , 7
-    , ""1"" ] : // @lengthOf(
-u8x
-, [ 00
-, ""abc"", """ ++ [128512]%N ++ runes_of_ascii """, ""a\\"" ,65535 ]:// " ++ [128512]%N ++ runes_of_ascii " emoji
-pack ,	},
-    @tag( 0 ) leftPad { char[]
-    options1 @lengthOf(	asx
-// a // b
-// " ++ [128512]%N ++ runes_of_ascii " emoji
-) ,char[ 0
-] /// triple
-As `crlf
-line` ,	i64  crc ,
-}
-,
-float64 asx , @leftPad ( // `tick` ""quote"" 'q'
-' ' ) T@calculatedFrom( ""abc""),  }packet As {
-    // " ++ [27880; 37322]%N ++ runes_of_ascii "
-    string i64_ @calculatedFrom( ""\n"")
-    ,@lengthOf( i8i8 )  @lengthOf( asx ) @rightPad('0'/// triple
-)repeat uint64	MetaDataX,tag zchar /// triple
-, @calculatedFrom( ""// no comment"") char[]u @calculatedFrom(// packet A { u8 x, }
-""a\\""
-// " ++ [27880; 37322]%N ++ runes_of_ascii "
-//x
-) `u8 x,`	, // trailing space 
-@calculatedFrom(""" ++ [233]%N ++ runes_of_ascii "t" ++ [233]%N ++ runes_of_ascii """ ) // @lengthOf(
-char[//
-10 ]
-repeatCount `
-` , } packet f32a {
-    Header  o ,
-    } packet chars { @rightPad( '0' ) match
-u128  as u8x {3 : i8i8
-// `tick` ""quote"" 'q'
-//	t
-,
-    255: charz [ 4294967296 , ""x y"",""" ++ [233]%N ++ runes_of_ascii "t" ++ [233]%N ++ runes_of_ascii """ ,
-    ""{,}"" ]	:
-x	,
-    65535 : len }
-, @lengthOf( u8x // " ++ [128512]%N ++ runes_of_ascii " emoji
-)i16 Foo@lengthOf(  u8x // packet A { u8 x, }
-),
-@lengthOf( _x)@leftPad ( ' ' )
-char[
-    // `tick` ""quote"" 'q'
-    255  ]
-tag
-    @calculatedFrom( ""it's"" )
-// trailing space 
-//
-, @calculatedFrom("""" ) float32 i64_ `line1
-line2` , repeat string
-    roots,string // trailing space 
-float, @lengthOf( Header ) @tag( 007
-    ) @calculatedFrom( ""abc"" ) match
-zchar  as
-u8x { ""a	b"" : charz , 0 :	len ,
-} ,zchar[ 00]MetaDataX
-    @calculatedFrom(
-    // c
-    ""a\""b""
-) `two words` ,} // `tick` ""quote"" 'q'")).
-Eval vm_compute in ("<<<M3816>>>" ++ check (runes_of_ascii "
-options 
-      // c
-  { chars 
-=
+match
+crc
 
-'0';
-
-Pad	// " ++ [27880; 37322]%N ++ runes_of_ascii "
-
-  =
-
-    42
-
-;
-
-}  packet
-roots
-    {
-@calculatedFrom( """ ++ [28040; 24687]%N ++ runes_of_ascii """
-	)
-@calculatedFrom(  // a // b
-    ""// no comment"")chars,} 
-packet	body{
-
-    @lengthOf(x)
-	match msg_type
-	as
-    x_y_z{
-
-0123456789 
-:	uint8x,// packet A { u8 x, }
-    ""`tick`"" 
-:
-
-    i64_	// packet A { u8 x, }
-00//
-  :
-a1""{,}"" : 
-Header,
-[
-255
-
-    ]
-:  falsey
-	,
-}
-,	@calculatedFrom(
-
-    ""\n""
-	)  @rightPad
-	( )
-
-    @lengthOf(
-BodyLength  )
-i16 
-A
-@lengthOf(
-    uint8x)
-
-    ,
-char[] Foo
-    @lengthOf( T)
-    ,
-@leftPad (
-
-    '0' ) _x
-	{
-	Logon	// trailing space 
-  @lengthOf( //x
-		u ),
-}	,@leftPad
-    (  '\x00'
-
-    ) char[
-	4294967296
-
-] trueish
-@calculatedFrom( ""x y""
-    ) `" ++ [233]%N ++ runes_of_ascii "` 
-,
-    @rightPad  (
-' '	) 
-      // packet A { u8 x, }
-    	match msg_type
 as
 
-pack
-{
-    [	""a\""b""
-	,
-""`tick`"" 
-]
-    :
+metadata  { 65535  :
 
-    asx
-
-,""x y"":a1	// `tick` ""quote"" 'q'
-		,""" ++ [128512]%N ++ runes_of_ascii """:  MetaDataX  42
-	: Foo 
-007//x
-      :trueish
-/// triple
-
-  // @lengthOf(
-	""it's"" 
-: string_ },  repeat Header  `
-`	,	@tag(
-	00 ) f32 options1
-@lengthOf(
-calculatedFrom
-    ), zchar[255	]
-Logon	, }
-
-    root
-packet packetx  {
-@lengthOf(
-
-calculatedFrom
-    )
-metadata
-x_y_z  ,
-	}
-
-    packet leftPad {
-
-match
-
-    roots
-as  falsey  { 
-""x y""	: u
-    ,
-""x y""
-
-:
-msg_type  }
-,  repeat  int64
-
-    leftPad  ,
-u  @calculatedFrom( ""x y"") 
-`tab	here` ,
-
-    @calculatedFrom(""packet""
-)
-	match 
-    // " ++ [27880; 37322]%N ++ runes_of_ascii "
-    // `tick` ""quote"" 'q'
-    matchKey as BodyLength{	255:
-
-a1
-	007 :  T ,  // `tick` ""quote"" 'q'
-    ""`tick`""
-//	t
-// a // b
-    :rootA ,
-[
-
-    ""a\\""
-, 1  ,
-255
-
-, 7	// packet A { u8 x, }
-    	,
-1
-
-,
-    ""it's""
-	,	1 ,42  ] :
-    x_y_z
-
-    ,
-42
-
-    :
-i64_//x
-  ,
-}//
-,
-
-    float64
-
-x_y_z
-	`doc`	,uint8x//x
-,string float 
-    //x
-  	// " ++ [27880; 37322]%N ++ runes_of_ascii "
-    @calculatedFrom(  ""\n""	) , 
-@lengthOf( 
-        // `tick` ""quote"" 'q'
-o) stringy  //
-@lengthOf(
-	rootA
-
-)
-	, }  //x")).
-Eval vm_compute in ("<<<M538>>>" ++ check (runes_of_ascii "options
     // c
-    {
-    chars =
-    '0' ; Pad // " ++ [27880; 37322]%N ++ runes_of_ascii "
-= 42 ;
-    } packet
-    roots
-{@calculatedFrom( """ ++ [28040; 24687]%N ++ runes_of_ascii """ ) @calculatedFrom(// a // b
-""// no comment"" ) chars, }
-    packet body { @lengthOf( x  ) match msg_type as x_y_z { 0123456789 :  uint8x
-, // packet A { u8 x, }
-""`tick`"" :
-i64_ // packet A { u8 x, }
-00 //
+trueish""\" ++ [233]%N ++ runes_of_ascii """ 
 :
-    a1
-""{,}"" :Header,	[255]	: falsey ,
-}
-, @calculatedFrom( ""\n"" ) @rightPad
-() @lengthOf( BodyLength) i16	A @lengthOf( uint8x ),char[] Foo @lengthOf(
-T )
-, @leftPad
-    (  '0' ) _x {Logon// trailing space 
-@lengthOf( //x
-u
-), } , @leftPad	( '\x00'
-) char[ 4294967296 ]
-    trueish @calculatedFrom(""x y"" )
-`" ++ [233]%N ++ runes_of_ascii "` ,@rightPad	(
-    ' ')
-    // packet A { u8 x, }
-    match msg_type as pack {[
-""a\""b"" , ""`tick`""]	: asx
-,""x y"" :  a1 // `tick` ""quote"" 'q'
+charz ,
+""abc""  : MetaDataX
+
+[ ""packet"" ,  ""// no comment""
 ,
-    """ ++ [128512]%N ++ runes_of_ascii """	:
-    MetaDataX 42 :Foo	007//x
-: trueish
-/// triple
+    0 ,	00
+    , ""// no comment""
+    ,
+""{,}"" 
+,
+00 
+]:
+	i64_
 // @lengthOf(
-""it's"" : string_	}	, repeat Header`
-`, @tag(
-00) f32
-options1 @lengthOf( calculatedFrom) ,zchar[255 ] Logon, } root
-packet packetx { @lengthOf(	calculatedFrom ) metadata	x_y_z, }
-packet leftPad { match roots  as
-falsey {
-""x y"" : u ,""x y"" : msg_type }
-    ,repeat int64 leftPad
+  //	t
+
 ,
-u @calculatedFrom( ""x y"" ) `tab	here`
-, @calculatedFrom(
-""packet"" ) match
-// " ++ [27880; 37322]%N ++ runes_of_ascii "
-// `tick` ""quote"" 'q'
-matchKey as BodyLength{ 255 :
-a1 007: T , // `tick` ""quote"" 'q'
-""`tick`""
-//	t
-// a // b
-:
-rootA, [ ""a\\""	,
+    """ ++ [233]%N ++ runes_of_ascii "t" ++ [233]%N ++ runes_of_ascii """
+	:
+	f32a	,
+
+    [ """ ++ [128512]%N ++ runes_of_ascii """
+
+    ,	""it's""	]:Foo	} 
+,	@rightPad
+
+    (' '
+
+/// triple
+	  )repeat
+char[ 
 1
-,255,7 // packet A { u8 x, }
-, 1 , ""it's""
-, 1, 42]
-:x_y_z
-,
-    42 :
-i64_//x
-, }//
-, float64 x_y_z
-    `doc`
-,
-    uint8x //x
-,string
-    float
-//x
-// " ++ [27880; 37322]%N ++ runes_of_ascii "
-@calculatedFrom( ""\n"") ,
-@lengthOf(
-    // `tick` ""quote"" 'q'
-    o
-)stringy //
-@lengthOf(
-rootA ) , } //x")).
-Eval vm_compute in ("<<<M1361>>>" ++ check (runes_of_ascii "options { u= char[] }	MetaData u// " ++ [27880; 37322]%N ++ runes_of_ascii "
-{  char[
-0 ] Logon , char[]x_y_z , string string_ // @lengthOf(
-,u64 uint8x ,
-}
-    packet body
-    {char[00 ] rootA	, T {stringy// packet A { u8 x, }
-{ repeat
-char[]
-//
-//x
-metadata `" ++ [28040; 24687; 31867; 22411]%N ++ runes_of_ascii "`
-    ,
-match i8i8// packet A { u8 x, }
-as
-BodyLength {
-0:
-BodyLength
-    //	t
-    ,
-},// `tick` ""quote"" 'q'
-packetx
-@calculatedFrom( ""CRC32"" ) `
-` , }, int32 falsey`a\`,
-    } , //	t
-match // a // b
-Z9_ as calculatedFrom { 255
-//	t
-//	t
-: As // " ++ [27880; 37322]%N ++ runes_of_ascii "
-},
-    // " ++ [27880; 37322]%N ++ runes_of_ascii "
-    Logon `doc` , } root  packet
-stringy
-    {match x
-as T {
-    65535 : Header
-,[ ""a\""b""
-, ""1"" ]// " ++ [128512]%N ++ runes_of_ascii " emoji
-:Z9_ ,
-//
-//
-}
-,char[]/// triple
-zchar @lengthOf( lengthOf )
-//x
-// @lengthOf(
-`two words`
-,options1 { repeat int
-Header `` , i8
-    Logon @calculatedFrom( ""a	b""
-    )  `" ++ [28040; 24687; 31867; 22411]%N ++ runes_of_ascii "` , // @lengthOf(
-} , uint32 roots `// not a comment`
-,
-len
-//
-//
-{ match
-// `tick` ""quote"" 'q'
-//x
-options1
-    as
-//x
-// c
-o
-{65535 :  f32a , ""CRC32"" :
-tag ,// @lengthOf(
-4294967296
-:
-u8x
-    , 0 : metadata
-,
-""a	b"" : string_}
-    , char[ 65535 ]
-/// triple
-// " ++ [128512]%N ++ runes_of_ascii " emoji
-crc  @calculatedFrom(""{,}"" ) `crlf
-line`, Pad@lengthOf(
-leftPad	) ,uint8
-Z9_ `u8 x,`
-, }	, msg_type@calculatedFrom(
-"""")
-,
-// trailing space 
-// `tick` ""quote"" 'q'
-repeat u8x	,	match	metadata
-as BodyLength{
-    ""packet""//
-:f32a 7 : int /// triple
-0123456789 : x  , // `tick` ""quote"" 'q'
-} , uint16 i64_ , } packet
-string_{
-string_ ,
-/// triple
-//
-}
-")).
-Eval vm_compute in ("<<<M3647>>>" ++ check (runes_of_ascii "// top
-options // c0a
-  // c0b
-{ LittleEndian =
-    // c3
-false ; // c5
-ArrayPrefixLenType
-    // c6
-= // c7a
-  // c7b
-u64 // c8
-; // c9a
-  // c9b
-FixedStringPadChar // c10
-= '0' // c12
-;
-    // c13
-} // c14
-packet
-    // c15
-Quote // c16
-{ repeat // c18
-InFlags37 // c19
-{ char[] // c21a
-  // c21b
-lastPx // c22
-, // c23
-} ,
-    // c25
-i16 // c26
-tag7
-    // c27
-,
-    // c28
-char[]
-    // c29
-f1 // c30
-,
-    // c31
-zchar[ // c32a
-  // c32b
-6 // c33
-] // c34
-Note , } packet Order // c39
-{
-    // c40
-u8 Ref // c42a
-  // c42b
-, repeat // c44a
-  // c44b
-Quote , repeat // c47
-string Acct
-    // c49
-, // c50
-}
-    // c51
-root // c52a
-  // c52b
-packet // c53a
-  // c53b
-Heartbeat { repeat
-    // c56
-Quote
-    // c57
-, @leftPad (
-    // c60
-'0'
-    // c61
-) char[ // c63
-11
-    // c64
-]
-    // c65
-OrderId // c66a
-  // c66b
-, zchar[ 8 // c69a
-  // c69b
-]
-    // c70
-Ref // c71a
-  // c71b
-, // c72a
-  // c72b
-u32 // c73
-Flags // c74a
-  // c74b
-, // c75a
-  // c75b
-u32 // c76
-Tail
-    // c77
-@lengthOf( Body // c79a
-  // c79b
-)
-    // c80
-, // c81
-match
-    // c82
-Flags as
-    // c84
-Body { // c86
-156 // c87
-: // c88a
-  // c88b
-Order
-    // c89
-, // c90a
-  // c90b
-7
-    // c91
-:
-    // c92
-Quote // c93
-,
-    // c94
-} // c95
-, // c96a
-  // c96b
-} // c97
-")).
-Eval vm_compute in ("<<<M668>>>" ++ check (runes_of_ascii "options{// packet A { u8 x, }
-uint8x =	'\x00' Foo  =
-    65535 ; As
-    =
-""" ++ [28040; 24687]%N ++ runes_of_ascii """ } options{} // `tick` ""quote"" 'q'
-root	packet i8i8
-{// packet A { u8 x, }
-repeat
-calculatedFrom	body `" ++ [233]%N ++ runes_of_ascii "` ,	@tag( 1)
-repeat lengthOf{match
-asx as x// @lengthOf(
-{ """ ++ [233]%N ++ runes_of_ascii "t" ++ [233]%N ++ runes_of_ascii """ : T	}
-    //x
-    ,	trueish @calculatedFrom( ""\n"") ,
-    u32 x ,} , @rightPad ('\x00'	) i32 packetx //	t
-@lengthOf(
-// @lengthOf(
-// " ++ [128512]%N ++ runes_of_ascii " emoji
-trueish )
-    , @tag( 10) repeat
-asx
-    { repeat int32 lengthOf , int8
-repeatCount ``// a // b
-,
-repeatCount msg_type ,
-msg_type{ Logon { charz u
-    `it's` ,calculatedFrom
-repeatCount `crlf
-line`
-    // `tick` ""quote"" 'q'
-    ,
-    }
-, }
-,
-// " ++ [27880; 37322]%N ++ runes_of_ascii "
-//	t
-} // " ++ [128512]%N ++ runes_of_ascii " emoji
-, _x { // trailing space 
-match
-    x_y_z
-as packetx {""`tick`"" :
-Pad ,
-    """" : x, } , char[] T, int
-,Z9_ falsey, } ,string  T
-    `it's` ,@lengthOf(u128
-)// @lengthOf(
-u128 @calculatedFrom(""1""	)
-    , u128 { float { zchar[ 00
-] MetaDataX@lengthOf(// " ++ [128512]%N ++ runes_of_ascii " emoji
-leftPad
-) `it's` , } ,
-repeat char[] tag // " ++ [128512]%N ++ runes_of_ascii " emoji
-,
-} ,
-//x
-// " ++ [128512]%N ++ runes_of_ascii " emoji
-@leftPad
-( '0') match A as lengthOf {""packet""
-: Header 0123456789 :
-leftPad ,
-    ""a\""b""	: zchar ""a	b"": // `tick` ""quote"" 'q'
-rootA ,
-}
-    ,
-    string crc	, }")).
-Eval vm_compute in ("<<<M477>>>" ++ check (runes_of_ascii "
-MetaData
-    asx
-// a // b
-/// triple
-{
-char[]	Z9_ // " ++ [128512]%N ++ runes_of_ascii " emoji
-`doc` , }
-    packet roots { a1 @lengthOf( string_ ) ,	char[ 0123456789 ] Logon`
-` , // " ++ [128512]%N ++ runes_of_ascii " emoji
-@calculatedFrom(
-""`tick`""  )
-i64 u128
-    //
-    , i32 matchKey
-    `doc` ,match asx as pack { /// triple
-[ 0 ] : x_y_z
-0123456789 :float,
-00 : packetx
-65535 : crc
-,	4294967296
-    :a1 } , falsey
-float ,  @calculatedFrom(""CRC32"") // " ++ [128512]%N ++ runes_of_ascii " emoji
-@lengthOf( body ) @lengthOf( MetaDataX )// @lengthOf(
-leftPad
-@calculatedFrom( """ ++ [28040; 24687]%N ++ runes_of_ascii """
-)
-`// not a comment`,
-    uint8 packetx @calculatedFrom( ""a	b"")// packet A { u8 x, }
-,}  packet
-    Logon	{
-    } packet zchar { /// triple
-Z9_
-{ repeat i8 Foo	,	f64
-    // " ++ [128512]%N ++ runes_of_ascii " emoji
-    falsey
-`tab	here` // " ++ [27880; 37322]%N ++ runes_of_ascii "
-,
-match  msg_type as As{
-255: roots
-, [ 4294967296, 7
-    , ""`tick`""
-, 65535	] :
-metadata, """ ++ [233]%N ++ runes_of_ascii "t" ++ [233]%N ++ runes_of_ascii """: x_y_z ""`tick`"" : x_y_z , [
-    42 , ""CRC32"" , //x
-""// no comment"",  0123456789	, ""// no comment"" , ""CRC32"" ,	""" ++ [128512]%N ++ runes_of_ascii """ ,
-    ""{,}"" //
-]:packetx, } , o@lengthOf(
-msg_type ) `it's` , }	,	@calculatedFrom( """ ++ [28040; 24687]%N ++ runes_of_ascii """ )
-uint64 x
-`crlf
-line` , zchar[
-7 ]
-Logon , repeat rootA matchKey `crlf
-line` ,} // " ++ [27880; 37322]%N)).
-Eval vm_compute in ("<<<M294>>>" ++ check (runes_of_ascii "MetaData roots { zchar[ 7 ] body , } packet trueish { repeat zchar[ 0123456789
-] i8i8 `line1
-line2`
-//x
-/// triple
-, } packet u8x { x_y_z chars
-, @calculatedFrom( """ ++ [28040; 24687]%N ++ runes_of_ascii """) @calculatedFrom(
-    """ ++ [28040; 24687]%N ++ runes_of_ascii """ )
-    @tag( 007) int64
-Foo// trailing space 
-,int8 _x`it's`
-, match x as Foo {
-[// c
-65535,	""" ++ [233]%N ++ runes_of_ascii "t" ++ [233]%N ++ runes_of_ascii """	,""abc"" ,
-""\" ++ [233]%N ++ runes_of_ascii """// @lengthOf(
-,	10 ]: // packet A { u8 x, }
-Pad
-, } ,
+	]
 body
-{ match msg_type as uint8x {
-""a\""b"" :	falsey 0 :  Packet""it's""
-:lengthOf //	t
-""" ++ [28040; 24687]%N ++ runes_of_ascii """:
-charz ,} ,
-    // a // b
-    }	,	@tag( 42 )@calculatedFrom(
-""\" ++ [233]%N ++ runes_of_ascii """
-    )// c
-@lengthOf(
-u )
-    repeat char
-calculatedFrom	, @tag(
+    `it's`
+
+,
+	@tag(  007
+) @calculatedFrom(
+
+    """ ++ [233]%N ++ runes_of_ascii "t" ++ [233]%N ++ runes_of_ascii """)
+
 // @lengthOf(
-// " ++ [128512]%N ++ runes_of_ascii " emoji
-1  )
-@rightPad ( '\x00'
-) @lengthOf( f32a )
-int16 pack
-`" ++ [233]%N ++ runes_of_ascii "` , @lengthOf(
-    // c
-    A //x
-) repeat
-char[]
-    options1 , } packet _x { @lengthOf(
-    options1)  string
-    u8x @lengthOf(
-_x// a // b
-), repeat
-// " ++ [128512]%N ++ runes_of_ascii " emoji
-// packet A { u8 x, }
-Pad
-{ As	{ matchKey chars ,
-} ,// trailing space 
-} ,repeat string crc
-    //
+		//
+
+	@calculatedFrom(
+    ""a\""b""  // trailing space 
+
+	)
+repeat
+
+i64_ 
+{
+    roots/// triple
+		{
+i16 // packet A { u8 x, }
+
+Header  `two words`, repeatCount
+    `{ , }` ,
+
+    f64  x@calculatedFrom( ""a	b""
+
+    ) 
+    // a // b
+	,  repeatCount@calculatedFrom( // " ++ [27880; 37322]%N ++ runes_of_ascii "
+
+	"""")
+,
+	}
+,repeat	u8	BodyLength
+	`crlf
+line` , 
+    // `tick` ""quote"" 'q'
+	char
+As@lengthOf(
+
+Foo ),
+
+}
+	,char[]roots
+
     `line1
+line2` , 	 //
+  int
+a1 ,string_
+
+    { char[]
+
+Logon 
+`line1
 line2` ,
-    //
-    } packet crc{@calculatedFrom( ""{,}"" )  a1 u128 , } //	t")).
+repeat
+float32
+    trueish,  }
+
+, @leftPad 
+(
+'0' 
+)
+
+    repeat  metadata {
+
+    rootA
+	@lengthOf( 	 // trailing space 
+	falsey ) ``	, 
+
+    // " ++ [128512]%N ++ runes_of_ascii " emoji
+
+// packet A { u8 x, }
+  }
+,
+
+    }
+
+    packet
+	float 
+{
+
+u16 
+      // trailing space 
+  	// trailing space 
+
+Logon	// a // b
+    `tab	here`// @lengthOf(
+
+	,
+    // @lengthOf(
+
+	// c
+
+u128
+
+    {
+    zchar[ 255 
+        // packet A { u8 x, }
+  //
+    ] 
+charz
+	`doc`
+
+,
+} , @tag(
+0	)	repeat	Foo
+{  i32
+	body @calculatedFrom(
+
+""`tick`"")`" ++ [233]%N ++ runes_of_ascii "`
+,
+	} /// triple
+  	, 
+char[] 
+o	@calculatedFrom(
+""1"" )  `line1
+line2`
+
+, @lengthOf(  
+      // a // b
+
+//x
+	zchar
+
+    )
+i16 BodyLength @lengthOf( 
+
+    // " ++ [27880; 37322]%N ++ runes_of_ascii "
+
+BodyLength
+)
+    ,
+@lengthOf(
+	T )
+
+@rightPad (' '
+	)
+    @lengthOf( T
+	)repeat
+    u64
+_x// " ++ [27880; 37322]%N ++ runes_of_ascii "
+  ,
+match MetaDataX	as// trailing space 
+  options1 // trailing space 
+	{//x
+  0123456789	:  options1
+
+,
+    } ,
+repeat 
+u8  charz
+    ,	repeat 
+i8i8{ // c
+	a1 ,
+	len
+
+    {repeat	string  o, 
+    // a // b
+  } ,
+match
+    zchar as 
+Logon 
+{
+    """" :
+
+    matchKey  """ ++ [128512]%N ++ runes_of_ascii """
+	: u
+
+007  :  repeatCount,
+}
+    ,  // c
+	}	,
+
+}
+")).
+Eval vm_compute in ("<<<M1827>>>" ++ check (runes_of_ascii "packet asx {
+    Logon {
+        body @calculatedFrom(""it's""),// @lengthOf(
+        char[3] MetaDataX,
+        string leftPad `crlf
+        line`,
+        u128 @calculatedFrom(""packet""),
+    },
+}//x
+
+packet x_y_z {
+    len {
+        match leftPad as rootA {
+            [
+                007, ""a\\"", 0123456789, ""\" ++ [233]%N ++ runes_of_ascii """, ""`tick`"",
+                ""{,}""
+            ] : falsey,
+            4294967296 : matchKey,
+            // packet A { u8 x, }
+        },
+        int32 Z9_,
+        a1 {
+            x_y_z,
+            repeat _x `doc`,
+            char[] falsey @lengthOf(u128) `doc`,
+        },
+        match Foo as stringy {
+            7 : asx,
+            ""x y"" : calculatedFrom,
+        },
+    },
+    @lengthOf(i64_)
+    @rightPad('\x00')
+    @tag(42)
+    char[] repeatCount,
+    match Z9_ as int {
+        [""a	b"", ""abc"", 255, 7] : asx,
+        ""1"" : chars,
+        [""a	b"", 00, 4294967296] : leftPad,
+        [
+            65535, 0, ""abc"", ""it's"", 007,
+            ""x y"", 255, 3
+        ] : leftPad,
+        [4294967296] : u,
+        // " ++ [128512]%N ++ runes_of_ascii " emoji
+        // " ++ [128512]%N ++ runes_of_ascii " emoji
+        0123456789 : a1,
+    },
+    x_y_z u8x,
+    asx {
+        repeat Header float `crlf
+        line`,
+        rootA charz `a\`,
+    },
+    @calculatedFrom(""CRC32"")
+    string string_,
+    @tag(65535)
+    @rightPad('\x00')
+    u8x a1 `{ , }`,
+}
+
+options {
+    // c
+    float = 007
+}
+
+root packet metadata {
+}")).
+Eval vm_compute in ("<<<M1717>>>" ++ check (runes_of_ascii "packet u {
+    Header {
+        float64 Foo @lengthOf(Pad) `{ , }`,
+        leftPad @calculatedFrom(""a	b""),
+        msg_type {
+            Z9_ @lengthOf(u8x),
+            falsey,
+            len @lengthOf(float) `it's`,
+            repeat int64 options1 `a\`,
+        },// trailing space 
+    },
+    //	t
+    // " ++ [128512]%N ++ runes_of_ascii " emoji
+    falsey u8x,
+    zchar[1] x ``,
+    @lengthOf(uint8x)
+    crc @lengthOf(matchKey),
+    repeat f32 string_,
+    packetx,
+    // " ++ [27880; 37322]%N ++ runes_of_ascii "
+    u8x {
+        f64 Header,
+        repeat uint8 uint8x,
+        x_y_z {
+            match string_ as a1 {
+                [255] : f32a,
+                [
+                    ""packet"", ""1"", 00, """ ++ [128512]%N ++ runes_of_ascii """, 4294967296,
+                    4294967296
+                ] : Logon,
+            },
+            pack @lengthOf(options1),
+            zchar[1] crc ``,
+        },
+    },
+    rootA zchar,
+}
+
+options {
+    uint8x = 4294967296
+    // " ++ [27880; 37322]%N ++ runes_of_ascii "
+    // @lengthOf(
+    tag = float32;
+    o = true;// trailing space 
+    rootA = ""packet"";
+}//x
+
+packet float {
+}// " ++ [27880; 37322]%N ++ runes_of_ascii "
+
+options {
+    // " ++ [27880; 37322]%N ++ runes_of_ascii "
+    msg_type = i16;
+    trueish = zchar[1];
+    Logon = ""abc""
+    rootA = i16;
+}
+
+MetaData rootA {
+}")).
 Eval vm_compute in ("<<<M202>>>" ++ check (runes_of_ascii "root packet body{
 @tag(
 4294967296
@@ -868,1603 +433,661 @@ As
 """ ++ [28040; 24687]%N ++ runes_of_ascii """ ) ,
 }
 ")).
-Eval vm_compute in ("<<<M4236>>>" ++ check (runes_of_ascii "// c
-    packet 
-i8i8
+Eval vm_compute in ("<<<M1764>>>" ++ check (runes_of_ascii "
+packet Pad
 
-{
-
-    }
-    packet
-	string_ { @rightPad
-    ('\x00' 	 //x
-		) 
-int
-
-    Packet 
-,  // a // b
-  @tag(
-
-255 )	matchKey ,
-    chars	@calculatedFrom( ""packet""	)
-    `
-`
-	,_x @lengthOf(u
-
-    )
-
-    ,	@tag(	// c
-    255)  asx 
-Foo ,string
-roots
-
-,repeat
-falsey
-{  matchKey	{
-
-    match Pad as
-i8i8 //x
-    	{
-	[ 00
-	,7	]:u 
-, 1
-: BodyLength, 	 // a // b
-	""// no comment"" :
-
-    metadata,
-
-""""
-// @lengthOf(
-  //
-
-	:
-	BodyLength
+    { @lengthOf( stringy ) 
+MetaDataX @calculatedFrom(""" ++ [28040; 24687]%N ++ runes_of_ascii """ )`{ , }` , 
+	    //x
 /// triple
-,}
+  char[
+0123456789	] leftPad
+	@lengthOf( float )
 
-    ,
-
-}
-
-, 
-A,
+    ,  asx
+leftPad	`u8 x,`,
+	@calculatedFrom(""\" ++ [233]%N ++ runes_of_ascii """
+)
 
 repeat
+    rootA
+    matchKey `" ++ [28040; 24687; 31867; 22411]%N ++ runes_of_ascii "`
 
-char
+, @lengthOf(
 
-    falsey , } , 	 // packet A { u8 x, }
-    	_x	u`it's`,  @leftPad 
-( 
-'\x00'
+stringy )  /// triple
+uint8x
+msg_type`u8 x,`	,  // c
+	char[ 3 ]
+    stringy  `tab	here`  ,
 
-    )
-    @calculatedFrom(
-    ""\n""
-	)match
-x_y_z
-    as
+}
+MetaData 
+metadata
+    { string_
 
-metadata  { ""CRC32""	:
-
-    packetx  // packet A { u8 x, }
-,  ""packet"" 
-:
-
-    metadata
-1  :
-string_  // c
-  , [ 0
-
-,  // " ++ [128512]%N ++ runes_of_ascii " emoji
-10
-] 
-:  // packet A { u8 x, }
-  falsey	// " ++ [27880; 37322]%N ++ runes_of_ascii "
-	,
-    },
-char[] chars
-@lengthOf( zchar/// triple
-  	) `say ""hi""` 
-,
-    }
-")).
-Eval vm_compute in ("<<<M936>>>" ++ check (runes_of_ascii "
-MetaData
-A
-//
-// " ++ [128512]%N ++ runes_of_ascii " emoji
-{ u8x
-A /// triple
-``
-, int16 roots `// not a comment`
-    , u128 u,
-int options1 `" ++ [28040; 24687; 31867; 22411]%N ++ runes_of_ascii "`,  i16 repeatCount
-,i8	roots, // `tick` ""quote"" 'q'
-} root
-packet matchKey{  lengthOf/// triple
-{ i64_@lengthOf( msg_type )
-, } ,
-    }
-options
-    {x=
-    char[] } // trailing space 
-packet
-As{ i64_`crlf
-line` , // c
-rootA Z9_	,string Pad @calculatedFrom( ""// no comment""
-) `say ""hi""`
-,
-@rightPad
-(
-    '\x00' )
-@calculatedFrom(
-    ""{,}""
-)// `tick` ""quote"" 'q'
-@calculatedFrom(
-    ""CRC32""	)falsey `doc` , match Logon as tag { 3 : f32a ,
-    ""abc"":  o , 255 :	A""abc"": leftPad, }  , @calculatedFrom(""" ++ [233]%N ++ runes_of_ascii "t" ++ [233]%N ++ runes_of_ascii """)repeat u32
-_x `{ , }` , repeat stringy`a\`
-,
-// @lengthOf(
-// " ++ [128512]%N ++ runes_of_ascii " emoji
-len // packet A { u8 x, }
-@lengthOf(Header
-)
-//
-// " ++ [27880; 37322]%N ++ runes_of_ascii "
-`" ++ [28040; 24687; 31867; 22411]%N ++ runes_of_ascii "`
-,
-    i32 len @lengthOf( repeatCount ) `line1
-line2`,
-    @tag(
-//x
-// a // b
-42//x
-)	BodyLength	,	}")).
-Eval vm_compute in ("<<<M884>>>" ++ check (runes_of_ascii "packet Packet
-{asx
-    //	t
-    @lengthOf(metadata)  `line1
-line2`
-// " ++ [128512]%N ++ runes_of_ascii " emoji
-// packet A { u8 x, }
-,
-@tag( 0123456789) repeat char tag,
-BodyLength @calculatedFrom( ""`tick`""
-)
-, @calculatedFrom(
-""\" ++ [233]%N ++ runes_of_ascii """ )
-tag @calculatedFrom(// @lengthOf(
-""" ++ [233]%N ++ runes_of_ascii "t" ++ [233]%N ++ runes_of_ascii """
-    )	,@leftPad
-( ) match o as T
-    {	""CRC32"":metadata [ 7, // trailing space 
-""CRC32"", ""CRC32""
-, ""a\\"" , 0123456789
-]
-:
-i8i8 4294967296
-:
-    o, [65535 ] : leftPad, 00:
-charz
-    , } , string_ @calculatedFrom( ""\n"" ) `u8 x,` , }
-root packet Foo // `tick` ""quote"" 'q'
-{ @rightPad(
-    '0'
-    ) repeat msg_type string_ , } root packet Z9_{ @calculatedFrom(
-    // c
-    ""1"")string
-    A //x
-, repeat x zchar,  @tag( 1
-    ) @tag( 0 ) i64_
-    float
-`tab	here` , repeat //
-u8 _x
-    `` , lengthOf
-@calculatedFrom(
-    ""`tick`"")
-//x
-// trailing space 
-,
-    }
-")).
-Eval vm_compute in ("<<<M166>>>" ++ check (runes_of_ascii "packet A {
-@lengthOf(
-    lengthOf)int16 packetx // trailing space 
-@calculatedFrom(""1"" )
-    , repeat u64 Packet`
-` , match trueish as /// triple
-roots { 3
-: A ,""x y""
-// " ++ [27880; 37322]%N ++ runes_of_ascii "
-//
-:
-BodyLength
-    //
-    ,
-    42:Foo  , },
-} packet As	{
-    msg_type @lengthOf(
-    /// triple
-    u )
-    , }root packet
     zchar
-    {i8i8 i8i8
-`
-` ,zchar
-    {int8	Foo
-`a\`  , },
-    f32 pack @lengthOf(
-crc
-// packet A { u8 x, }
-// c
-) , @calculatedFrom( ""{,}""	) // " ++ [27880; 37322]%N ++ runes_of_ascii "
-match crc as
-roots { 65535 : int ""packet""
-:  float ,00 : zchar
-// packet A { u8 x, }
-// `tick` ""quote"" 'q'
-, [ ""x y""] :
-options1, ""it's""
-:x, } , @lengthOf(
-Packet)
-    match x
-    //	t
-    as As{ //	t
-0: lengthOf
-,
-    //	t
-    3 : pack , ""it's""  : x_y_z ,
-""a\""b"" : metadata
-} , uint16
-    i8i8, } // a // b")).
-Eval vm_compute in ("<<<M924>>>" ++ check (runes_of_ascii "  packet Pad{	@leftPad ( '\x00' ) @tag( 42
-    )@rightPad ( ' ')
-    uint8 asx
-    // c
-    ,
-@rightPad
-    (	)string a1,	u8x  @calculatedFrom( """ ++ [128512]%N ++ runes_of_ascii """ )	,	@tag(
-    1 ) zchar[ 255 ] u128 ,@tag( 00)match
-//x
-//	t
-u128
-as zchar { 3 :	tag , [ """ ++ [233]%N ++ runes_of_ascii "t" ++ [233]%N ++ runes_of_ascii """ ]
-: // " ++ [27880; 37322]%N ++ runes_of_ascii "
-int ,
-}
-    ,
-    @leftPad	( ) zchar[7 ]
-    zchar
-@lengthOf(
-lengthOf ) , repeat Packet Foo	`a\`  , @lengthOf(
-msg_type
-)@rightPad
-(
-'0' ) @tag(255 ) string
-    tag
-//	t
-//
-@lengthOf(roots // a // b
-)
-    `say ""hi""` , repeat// " ++ [128512]%N ++ runes_of_ascii " emoji
-Logon f32a,}packet uint8x {
-    // trailing space 
-    @rightPad	(' ' )@lengthOf(
-    Header
-)zchar[
-7 ] u ,} // " ++ [128512]%N ++ runes_of_ascii " emoji
-MetaData a1
-    { rootA msg_type ,
-u16
-    /// triple
-    lengthOf `it's`,f32
-u8x
-, }
-    // c
-    packet	trueish {}")).
-Eval vm_compute in ("<<<M3803>>>" ++ check (runes_of_ascii "root packet As {
-    repeat x msg_type,
-}
+,float32
+	u128 ,
 
-MetaData crc {
-    // c
-    u8 x,
-}
-
-root packet Logon {
-    @calculatedFrom(""1"")
-    @rightPad(' ')
-    @leftPad()
-    string msg_type @lengthOf(uint8x) `a\`,
-    match calculatedFrom as i8i8 {
-        [""\" ++ [233]%N ++ runes_of_ascii """] : options1,
-        // c
-        1 : asx,
-        [42, 42, """ ++ [28040; 24687]%N ++ runes_of_ascii """, """", 7] : x_y_z,
-        [0] : asx,
-        //
-        7 : u8x,
-        [7] : u,
-    },
-}
-
-MetaData repeatCount {
-    float Foo,
-    As i8i8,
-}
-
-packet tag {
-    @leftPad(' ')
-    match Z9_ as msg_type {
-        //
-        [
-            10, ""a\""b"", 0, 255, 7,
-            0123456789, 10
-        ] : Logon,
-        """ ++ [233]%N ++ runes_of_ascii "t" ++ [233]%N ++ runes_of_ascii """ : a1,
-        7 : i64_,
-        255 : leftPad,
-    },
-}")).
-Eval vm_compute in ("<<<M164>>>" ++ check (runes_of_ascii "MetaData
-Packet {
-    float	Pad ,u32 // " ++ [128512]%N ++ runes_of_ascii " emoji
-Foo `it's`
-    ,uint16 stringy
-    , } packet
-    stringy // @lengthOf(
-{ @lengthOf(
-    chars
-) repeat f32 pack ,  @lengthOf(
-rootA
-)
-    // @lengthOf(
-    @calculatedFrom( ""CRC32""  ) char[] MetaDataX
-    // a // b
-    `" ++ [28040; 24687; 31867; 22411]%N ++ runes_of_ascii "` , @tag( 4294967296
-    ) len	@calculatedFrom(""a	b"")
-,
-} packet
-stringy { f32 leftPad/// triple
-,
-stringy { int	@calculatedFrom(""1"" ) `" ++ [233]%N ++ runes_of_ascii "`,	char[] o, zchar[ 0123456789  ]
-    matchKey @lengthOf(	lengthOf )
-`two words`
-, }
-,
-@leftPad ('\x00'
-) @lengthOf(
-// " ++ [128512]%N ++ runes_of_ascii " emoji
-/// triple
-falsey) repeat string falsey
-    `// not a comment` // trailing space 
-, //	t
-string Pad
-    , }
-
-")).
-Eval vm_compute in ("<<<M405>>>" ++ check (runes_of_ascii "options { options1 =
-0 } packet _x { @tag( 3
-    // trailing space 
-    )
-@lengthOf( packetx
-)repeat
-    zchar[ 255] roots,}	packet  Logon{ f64
-float ,
-matchKey	,
-    f32a//
-Pad
-    `" ++ [233]%N ++ runes_of_ascii "` ,
-    // `tick` ""quote"" 'q'
-    @calculatedFrom( ""packet"" ) match u128 as
-Pad{
-    [// " ++ [27880; 37322]%N ++ runes_of_ascii "
-00 ,""CRC32"" ]
-    : msg_type
-65535
-:	stringy , [
-""abc"" //	t
-,00, """ ++ [233]%N ++ runes_of_ascii "t" ++ [233]%N ++ runes_of_ascii """ , ""// no comment""
-    , // trailing space 
-0
-,""// no comment""
-    , ""1"" ]
-    : matchKey [ ""it's"" ,0] : A } , zchar[ 3] //x
-uint8x , } options { _x = ' ' rootA = //x
-char[] uint8x= //	t
-""a	b"" ;
-body= char[]
-    // trailing space 
-    }
-    root
-packet
-    len  { }
-")).
-Eval vm_compute in ("<<<M1070>>>" ++ check (runes_of_ascii "options { packetx=  ""a\\""
-    //	t
-    x_y_z	=// " ++ [128512]%N ++ runes_of_ascii " emoji
-false ;
-    len
-    //x
-    = """ ++ [233]%N ++ runes_of_ascii "t" ++ [233]%N ++ runes_of_ascii """u =
-    ""x y"" }MetaData Foo
-    { uint8x
-    /// triple
-    Z9_ // c
-`
-`
-,options1 msg_type ,string_ // @lengthOf(
-trueish
-`
-` , metadata /// triple
-rootA`two words`
-    //
-    , } root packet Foo { repeat
-trueish {
-match A as options1 { ""packet""
-: int , }
-    ,
-zchar[ 007]	u8x @calculatedFrom( """ ++ [233]%N ++ runes_of_ascii "t" ++ [233]%N ++ runes_of_ascii """ ) , msg_type float `" ++ [28040; 24687; 31867; 22411]%N ++ runes_of_ascii "` , match string_ as  charz // a // b
-{10
-: zchar ,
-    [ 0	, 007, 10 ,65535 ,1 , ""x y""
-    ,""" ++ [233]%N ++ runes_of_ascii "t" ++ [233]%N ++ runes_of_ascii """ ]// `tick` ""quote"" 'q'
-: u  ,
-1: u128
-//x
-//
-,3: int,	} , }
-    ,
-    } 	 ")).
-Eval vm_compute in ("<<<M4439>>>" ++ check (runes_of_ascii "MetaData i8i8 {
-    char[0123456789] body `doc`,// c
-}
-
-packet uint8x {
-    pack {
-        char u `crlf
-                line`,
-        float,
-        zchar[007] A,
-    },
-    char[] calculatedFrom `
-        `,
-    char[42] matchKey @calculatedFrom(""a\\"") ``,
-}
-
-root packet int {
-    @rightPad('0')
-    Pad {
-        match zchar as asx {
-            [""a	b"", 42] : Logon,
-            //
-        },
-        Packet {
-            zchar[4294967296] A,
-        },
-        match x as float {
-            ""x y"" : o,
-            1 : calculatedFrom,
-        },
-    },
-}
-//")).
-Eval vm_compute in ("<<<M4379>>>" ++ check (runes_of_ascii "MetaData i64_ {
-    int rootA,
-    char[0] A `{ , }`,
-    u128 rootA `doc`,// @lengthOf(
-    zchar[42] i8i8 `it's`,
-    /// triple
-    char[00] u,
-    zchar[0123456789] A `line1
-    line2`,
-}
-
-packet Z9_ {
-    @lengthOf(pack)
-    @calculatedFrom(""a\\"")
-    BodyLength @calculatedFrom(""\" ++ [233]%N ++ runes_of_ascii """),
-    @rightPad()
-    @tag(1)
-    @lengthOf(i8i8)
-    char[] trueish,
-    f32a @calculatedFrom(""" ++ [28040; 24687]%N ++ runes_of_ascii """) `u8 x,`,
-    @tag(65535)
-    string trueish,
-}
-
-packet BodyLength {
-    stringy @lengthOf(Z9_),
-    char[007] metadata @calculatedFrom("""") `" ++ [233]%N ++ runes_of_ascii "`,
-}")).
-Eval vm_compute in ("<<<M802>>>" ++ check (runes_of_ascii "packet Logon // `tick` ""quote"" 'q'
-{
-    @rightPad
-()
-repeat
-Z9_ , match i64_
-//x
-// @lengthOf(
-as len { 65535
-// " ++ [27880; 37322]%N ++ runes_of_ascii "
-// @lengthOf(
-:
-    MetaDataX
-, """ ++ [128512]%N ++ runes_of_ascii """: u128 , """ ++ [28040; 24687]%N ++ runes_of_ascii """ :lengthOf
-""a	b"" : o , [
-    255 // c
-]  : As , [""\n""] :
-// @lengthOf(
-// trailing space 
-o, } ,	@tag(
-//	t
-// trailing space 
-42)
-@tag( 1 ) //	t
-string_ @calculatedFrom( ""1"" ) ,
-    } root packet
-matchKey
-{ repeat u32
-MetaDataX ,
-    float32
-As	@lengthOf(
-charz	),
-a1 repeatCount `
-`	, } packet
-    msg_type
-    // trailing space 
-    {
-    }")).
-Eval vm_compute in ("<<<M1190>>>" ++ check (runes_of_ascii "packet metadata {	@tag( 7 ) body { u8x As
-    // @lengthOf(
-    `line1
-line2`
-    ,
-    match// a // b
-MetaDataX	as float{ 10
-: msg_type 7 : o,}, // " ++ [27880; 37322]%N ++ runes_of_ascii "
-} , _x
-{  repeat falsey	`
-`
-,match
-    x_y_z
-    as Packet {""" ++ [28040; 24687]%N ++ runes_of_ascii """ :u8x	, } ,
-zchar @calculatedFrom( """ ++ [233]%N ++ runes_of_ascii "t" ++ [233]%N ++ runes_of_ascii """ ) , } , // trailing space 
-@lengthOf( stringy )i64_
-@lengthOf( _x )	`` ,/// triple
-}
-//x
-//x
-packet asx
-    { @leftPad
-    (
-    '\x00' )
-i64	repeatCount
-, @lengthOf( lengthOf//	t
-)
-repeat//	t
-float32 Logon
-// @lengthOf(
-//
-, }
-")).
-Eval vm_compute in ("<<<M223>>>" ++ check (runes_of_ascii "
-root packet // a // b
-matchKey
-    { @calculatedFrom(
-""// no comment"")match matchKey as crc { 65535:metadata , 255 :options1 , ""{,}"" :asx
-,
-    [ ""\" ++ [233]%N ++ runes_of_ascii """ , 00
-,	""""  , /// triple
-""{,}"" ,
-""a\\"" ]
-    : msg_type , 007: f32a ,//x
-} , @lengthOf(
-repeatCount) @leftPad ()
-    @calculatedFrom(  ""a\\"")float ,@tag( 42 ) u8 crc @calculatedFrom( //
-""" ++ [28040; 24687]%N ++ runes_of_ascii """// " ++ [27880; 37322]%N ++ runes_of_ascii "
-)
-, uint64
-BodyLength @lengthOf( f32a)
-    `" ++ [28040; 24687; 31867; 22411]%N ++ runes_of_ascii "` , tag a1 ,
-tag @calculatedFrom( ""`tick`""
-), } // trailing space ")).
-Eval vm_compute in ("<<<M890>>>" ++ check (runes_of_ascii "
-MetaData
-    //	t
-    u { int8 body
-,
-    string Packet ,} options // `tick` ""quote"" 'q'
-{
-    matchKey =float64
-;
-}
-packet roots	{ // " ++ [128512]%N ++ runes_of_ascii " emoji
-@calculatedFrom(	""abc"")
-match MetaDataX
-// " ++ [27880; 37322]%N ++ runes_of_ascii "
-// c
-as // " ++ [27880; 37322]%N ++ runes_of_ascii "
-_x
-    { 007
-    : o[ 42  , ""x y""
-, 65535 , 1 ,
-65535
-    ,""a	b""	,4294967296 ,
-00 ]:f32a ""CRC32"" : repeatCount  , ""CRC32"" :u128 ,	} ,} options { } MetaData uint8x
-{
-char[] u128 , body
-crc  `
-`,
-    lengthOf rootA ,// " ++ [128512]%N ++ runes_of_ascii " emoji
-i8 crc
-, }
-
-")).
-Eval vm_compute in ("<<<M4152>>>" ++ check (runes_of_ascii "
-MetaData T{
-Foo	lengthOf
-	,
-
-    string  
-  //x
-	packetx
-    `// not a comment`, zchar[
+    char[]
 	//	t
-      0]  metadata 
-    //x
-
-  // `tick` ""quote"" 'q'
-	  `crlf
-line` ,
-x string_ 
-`line1
-line2`
-,
-} packet 
-repeatCount{ char[	// `tick` ""quote"" 'q'
-    255]
-    A  @calculatedFrom(
-
-    ""a\\"" ) , float32	BodyLength@lengthOf(
-_x
-
-)
-
-// c
-	//
-	`doc`
-
-,
-	char[] trueish
-
-    // " ++ [128512]%N ++ runes_of_ascii " emoji
-	@calculatedFrom(	""packet"")
-    , }
-
-")).
-Eval vm_compute in ("<<<M1301>>>" ++ check (runes_of_ascii "root	packet	u
-{ uint8x
-    // @lengthOf(
-    falsey
-, repeat char[ 0
-    ]
-o`u8 x,`  , @rightPad (
-'\x00')
-match leftPad
-    as
-    u { 7
-:crc
-, [""`tick`""
-,0123456789
-    ] :
-Packet ,
-    [ 42 ] : msg_type, 3 :
-    tag ,
-    } ,/// triple
-@calculatedFrom(
-""1"" )	char[ 1	] leftPad , } packet // " ++ [27880; 37322]%N ++ runes_of_ascii "
-o{ char[] falsey ,
-repeat
-i8
-//
-// " ++ [128512]%N ++ runes_of_ascii " emoji
-f32a `tab	here` ,
-float64 pack @calculatedFrom(
-    ""\" ++ [233]%N ++ runes_of_ascii """
-    ) , }
-")).
-Eval vm_compute in ("<<<M3865>>>" ++ check (runes_of_ascii "MetaData o {
-    i16 len,
+    	u128 	 //x
+  ,
 }
 
-packet msg_type {
-    chars roots,// trailing space 
-    repeat char[0] packetx `{ , }`,
-    @rightPad('\x00')
+    options
+// trailing space 
+{
+    zchar =""" ++ [28040; 24687]%N ++ runes_of_ascii """
+;
+msg_type =007
+; repeatCount
+    ='\x00' ;
+
+    }
+
+    packet
+_x  {
+	}options
+
+    {
+    asx =true
+	;
+lengthOf	= '0'
+	i8i8
+= '0'
+
+    crc = 
+""abc"" 
+      /// triple
+    	;
+Packet
+// " ++ [128512]%N ++ runes_of_ascii " emoji
+  // trailing space 
+  	=
+' ' } 	 // a // b")).
+Eval vm_compute in ("<<<M1697>>>" ++ check (runes_of_ascii "
+root packet
+
+    Packet	{
+char[0123456789
+
+    ]pack @lengthOf(  As  )
+
+    `{ , }`
+	,
+	repeat
+
+    // `tick` ""quote"" 'q'
+  	string 
+rootA,
+	match
+    repeatCount as
+pack	/// triple
+  { ""a\""b""	: uint8x	// packet A { u8 x, }
+		[
+""x y""	, 
+""it's"" 
+    // " ++ [128512]%N ++ runes_of_ascii " emoji
+	  ]
+:  chars 
+""\" ++ [233]%N ++ runes_of_ascii """ 
+:  //	t
+    crc
+
+    0123456789  : Packet
+,
+
+[ ""1""
+    ]
+
+: A , 
     // @lengthOf(
-    repeat i64 x,
-    match packetx as packetx {
-        65535 : x,
-        [""\n"", 3] : Logon,
-    },
-    BodyLength @calculatedFrom(""{,}""),
-    repeat pack Z9_,
-    x i8i8,
+
+  }, 	 // `tick` ""quote"" 'q'
+	  }	options	/// triple
+{}
+    packet 
+pack // trailing space 
+
+  {i8 	 //x
+
+	MetaDataX , 
+string
+float 
+`" ++ [28040; 24687; 31867; 22411]%N ++ runes_of_ascii "`
+
+    ,
+
+@lengthOf(  trueish ) @calculatedFrom(
+""`tick`"" )	f64
+lengthOf  ,
+	repeat  pack
+
+packetx  
+      // trailing space 
+	  // packet A { u8 x, }
+  ,
+}
+")).
+Eval vm_compute in ("<<<M209>>>" ++ check (runes_of_ascii "packet _x
+    {repeat
+u8x {
+    repeat pack
+    body,
+    } ,
+@calculatedFrom( ""x y"" ) A { match msg_type as f32a {4294967296
+    : crc 1
+// c
+/// triple
+: uint8x , // a // b
+[ 255, 0
+    ] : // " ++ [27880; 37322]%N ++ runes_of_ascii "
+pack , [7 ,
+// `tick` ""quote"" 'q'
+// packet A { u8 x, }
+00 ] :	roots , [ 255
+    ]
+:	rootA
+    , } ,
+    char packetx
+@calculatedFrom( ""{,}""
+    // trailing space 
+    )
+, } ,
+    match
+    BodyLength //
+as u8x {""a	b"" : u,
+    00 // @lengthOf(
+: msg_type,// " ++ [27880; 37322]%N ++ runes_of_ascii "
+}, match metadata as As{[ 0123456789, 3 ,// a // b
+0
+, ""it's""
+, ""it's"" , ""1"" ] :
+int
+,
+    ""packet"": leftPad}, char[] Pad `say ""hi""` , }
+
+")).
+Eval vm_compute in ("<<<M1665>>>" ++ check (runes_of_ascii "MetaData metadata {
+    // `tick` ""quote"" 'q'
+    msg_type Pad,
+    int8 calculatedFrom,
+}
+
+MetaData msg_type {
+    // packet A { u8 x, }
+}
+
+packet len {
+    _x,
 }
 
 options {
-    int = ""abc"";
-    u = ""abc""
-    int = '0';
-}")).
-Eval vm_compute in ("<<<M4132>>>" ++ check (runes_of_ascii "packet x_y_z {
-    @tag(1)
-    A @calculatedFrom(""a\""b""),
-    match Pad as lengthOf {
-        007 : u128,
-    },
-    match chars as roots {
-        1 : roots,
-        [1] : A,
-        // " ++ [27880; 37322]%N ++ runes_of_ascii "
-        ""a	b"" : roots,
-        [""abc"", 0] : u128,
-    },
-    repeat i64 i8i8,
-    @calculatedFrom(""" ++ [233]%N ++ runes_of_ascii "t" ++ [233]%N ++ runes_of_ascii """)
-    BodyLength,
-    @tag(255)
-    string u8x,
-    BodyLength options1 `
-    `,
-}")).
-Eval vm_compute in ("<<<M797>>>" ++ check (runes_of_ascii "packet lengthOf {
-    @lengthOf( zchar//x
-)char[]// trailing space 
-metadata  , @tag(
-10 ) string leftPad
-,
-@lengthOf(i8i8  )//
-@leftPad
-    //x
-    (
-'\x00')
-    repeat Packet `a\`
-, options1 { float
-@calculatedFrom( ""it's""), repeat
-    calculatedFrom
-    i64_	,	}
-, uint8 A @lengthOf( leftPad
-) `two words`
-,
-} MetaData repeatCount { }MetaData u8x
-{}
-")).
-Eval vm_compute in ("<<<M4533>>>" ++ check (runes_of_ascii "packet f32a {
+    As = true;// " ++ [27880; 37322]%N ++ runes_of_ascii "
+    repeatCount = '\x00';
+    uint8x = ""\" ++ [233]%N ++ runes_of_ascii """;
+    chars = true;
 }
 
-packet metadata {
-    @calculatedFrom(""\" ++ [233]%N ++ runes_of_ascii """)
-    repeat _x {
-        string falsey,
-    },
-    @calculatedFrom(""it's"")
-    As leftPad `a\`,
-    @calculatedFrom(""abc"")
-    char[0] roots,
-    @tag(00)
-    match Pad as roots {
-        10 : x_y_z,
-        00 : len,
-        [""// no comment""] : T,
-    },
-    a1 Header `" ++ [233]%N ++ runes_of_ascii "`,// " ++ [27880; 37322]%N ++ runes_of_ascii "
-}")).
-Eval vm_compute in ("<<<M1067>>>" ++ check (runes_of_ascii "packet f32a{char[
-    0123456789 ] matchKey `u8 x,` , @tag( 7 ) zchar[
-    //x
-    00
-// trailing space 
-// a // b
-] _x
-, } packet repeatCount {@calculatedFrom( ""CRC32""
-    )@lengthOf(f32a)@leftPad('0'
-// trailing space 
-//
-) match // trailing space 
-body
-// `tick` ""quote"" 'q'
 // " ++ [27880; 37322]%N ++ runes_of_ascii "
-as
-    int{ [ """" , 1
-] :
-    string_, } ,}
-")).
-Eval vm_compute in ("<<<M1893>>>" ++ check (runes_of_ascii "MetaData
-    u { }  options {
-// c
-// @lengthOf(
-float zchar[ int8 ;rootA =false ; As =	int16 // `tick` ""quote"" 'q'
-repeatCount
-    // trailing space 
-    =
-    int16
-; u8x =
-    //	t
-    '\x00' ; } options	{
-    repeatCount
-= 0
-u128
-    //
-    = false ; i64_
-// trailing space 
 // `tick` ""quote"" 'q'
-= '0' ; //	t
-}
-")).
-Eval vm_compute in ("<<<M1881>>>" ++ check (runes_of_ascii "MetaData
-    u { }  options { {
-// c
-// @lengthOf(
-float = int8 ;rootA =false ; As =	int16 // `tick` ""quote"" 'q'
-repeatCount
-    // trailing space 
-    =
-    int16
-; u8x =
-    //	t
-    '\x00' ; } options	{
-    repeatCount
-= 0
-u128
-    //
-    = false ; i64_
-// trailing space 
-// `tick` ""quote"" 'q'
-= '0' ; //	t
-}
-")).
-Eval vm_compute in ("<<<M1859>>>" ++ check (runes_of_ascii "@rightPad
-    u { }  options {
-// c
-// @lengthOf(
-float = int8 ;rootA =false ; As =	int16 // `tick` ""quote"" 'q'
-repeatCount
-    // trailing space 
-    =
-    int16
-; u8x =
-    //	t
-    '\x00' ; } options	{
-    repeatCount
-= 0
-u128
-    //
-    = false ; i64_
-// trailing space 
-// `tick` ""quote"" 'q'
-= '0' ; //	t
-}
-")).
-Eval vm_compute in ("<<<M1942>>>" ++ check (runes_of_ascii "MetaData
-    u { }  options {
-// c
-// @lengthOf(
-float = int8 ;rootA =false ; As =	int16 // `tick` ""quote"" 'q'
-=
-    // trailing space 
-    repeatCount
-    int16
-; u8x =
-    //	t
-    '\x00' ; } options	{
-    repeatCount
-= 0
-u128
-    //
-    = false ; i64_
-// trailing space 
-// `tick` ""quote"" 'q'
-= '0' ; //	t
-}
-")).
-Eval vm_compute in ("<<<M1870>>>" ++ check (runes_of_ascii "MetaData
-    u {   options {
-// c
-// @lengthOf(
-float = int8 ;rootA =false ; As =	int16 // `tick` ""quote"" 'q'
-repeatCount
-    // trailing space 
-    =
-    int16
-; u8x =
-    //	t
-    '\x00' ; } options	{
-    repeatCount
-= 0
-u128
-    //
-    = false ; i64_
-// trailing space 
-// `tick` ""quote"" 'q'
-= '0' ; //	t
-}
-")).
-Eval vm_compute in ("<<<M2056>>>" ++ check (runes_of_ascii "MetaData
-    u { }  options {
-// c
-// @lengthOf(
-float = int8 ;rootA =false ; As =	int16 // `tick` ""quote"" 'q'
-repeatCount
-    // trailing space 
-    =
-    int16
-; u8x =
-    //	t
-    '\x00' ; } options	{
-    repeatCount
-= 0
-u128
-    //
-    = false ; i64_
-// trailing space 
-// `tick` ""quote"" 'q'
-= '0' ; //	t")).
-Eval vm_compute in ("<<<M1310>>>" ++ check (runes_of_ascii "packet
-    Foo{@calculatedFrom(
-""" ++ [233]%N ++ runes_of_ascii "t" ++ [233]%N ++ runes_of_ascii """ )
-repeatCount stringy, u32 u8x	@calculatedFrom(  ""{,}""
-)
-    `
-`
-    // " ++ [27880; 37322]%N ++ runes_of_ascii "
-    ,
-    repeat	float64 Foo
-,
-char[]T
-    `{ , }` , } packet // a // b
-f32a	{@tag(
-    // a // b
-    007) uint64
-    falsey,
-}
-MetaData Foo{
-u16
-T ,
-crc tag ,A
-    falsey	`tab	here`,	}
-")).
-Eval vm_compute in ("<<<M425>>>" ++ check (runes_of_ascii "// trailing space 
-packet Packet
-{@calculatedFrom(
-""`tick`""
-)
-// a // b
-// `tick` ""quote"" 'q'
-repeat rootA  {
-    //
-    repeat int8 u128`
-` , char[
-4294967296
-]A@lengthOf(
-Foo ) , } , repeat i16	leftPad , @lengthOf( // a // b
-x ) float64 float // " ++ [128512]%N ++ runes_of_ascii " emoji
-@lengthOf(roots), } // trailing space ")).
-Eval vm_compute in ("<<<M486>>>" ++ check (runes_of_ascii "options
-    { /// triple
-} MetaData
-    Logon // packet A { u8 x, }
-{ char[ 65535 ] i8i8
-, }
-options
-{ u128
-= f64 options1 = int8;  Packet
-    // " ++ [27880; 37322]%N ++ runes_of_ascii "
-    = true; falsey
-=char[255
-    ] uint8x
-    =uint32
-;	}	MetaData
-//x
-// trailing space 
-i64_ {
-} packet BodyLength  { } // a // b")).
-Eval vm_compute in ("<<<M3549>>>" ++ check (runes_of_ascii "packet B { // c2
-u8 a ,
-    // c5
-}
-    // c6
-root // c7
-packet P { u8
-    // c11
-K // c12
-, // c13
-match K as Body
-    // c17
-{ // c18a
-  // c18b
-1 : B // c21
-,
-    // c22
-} ,
-    // c24
-u16 // c25
-L // c26
-@lengthOf(
-    // c27
-Body // c28
-)
-    // c29
-, }
-    // c31
-")).
-Eval vm_compute in ("<<<M3668>>>" ++ check (runes_of_ascii "options {
-    LittleEndian = true;
-}
-packet Sub {
-    u8 a,
-    @calculatedFrom(""CRC16"") u64 SubSum,
-}
-root packet Frame {
-    u16 MsgType,
-    u16 BodyLen @lengthOf(Body),
-    Sub Body,
-    string note,
-    @calculatedFrom(""CRC16"") u64 Checksum,
-    u8 tail,
-}
-")).
-Eval vm_compute in ("<<<M662>>>" ++ check (runes_of_ascii "  packet f32a { } MetaData x {BodyLength zchar , // @lengthOf(
-}  packet metadata{ @tag( 7 ) @lengthOf( uint8x )
-    body{ u8 Z9_ @calculatedFrom( /// triple
-""it's"" ) `u8 x,`
-    // @lengthOf(
-    , }
-, float32 falsey
-@lengthOf( u//	t
-) `line1
-line2` ,}")).
-Eval vm_compute in ("<<<M1608>>>" ++ check (runes_of_ascii "packet
-//	t
-// trailing space 
-_x {
-// packet A { u8 x, }
-// c
-char[
-3
-    ] u8x @lengthOf(
-u8x ) , @calculatedFrom(""" ++ [128512]%N ++ runes_of_ascii """ // @lengthOf(
-)
-i16	Foo
-@lengthOf(	string_
-    )`doc`	, repeat	i64 metadata , , @lengthOf( string_
-) i8 // c
-u  `line1
-line2`	,
-}
-")).
-Eval vm_compute in ("<<<M1499>>>" ++ check (runes_of_ascii "packet
-//	t
-// trailing space 
-_x char[
-// packet A { u8 x, }
-// c
-{
-3
-    ] u8x @lengthOf(
-u8x ) , @calculatedFrom(""" ++ [128512]%N ++ runes_of_ascii """ // @lengthOf(
-)
-i16	Foo
-@lengthOf(	string_
-    )`doc`	, repeat	i64 metadata , @lengthOf( string_
-) i8 // c
-u  `line1
-line2`	,
-}
-")).
-Eval vm_compute in ("<<<M1644>>>" ++ check (runes_of_ascii "packet
-//	t
-// trailing space 
-_x {
-// packet A { u8 x, }
-// c
-char[
-3
-    ] u8x @lengthOf(
-u8x ) , @calculatedFrom(""" ++ [128512]%N ++ runes_of_ascii """ // @lengthOf(
-)
-i16	Foo
-@lengthOf(	string_
-    )`doc`	, repeat	i64 metadata , @lengthOf( string_
-) i8 // c
-u  `line1
-line2`	}
-,
-")).
-Eval vm_compute in ("<<<M1547>>>" ++ check (runes_of_ascii "packet
-//	t
-// trailing space 
-_x {
-// packet A { u8 x, }
-// c
-char[
-3
-    ] u8x @lengthOf(
-u8x ) , @calculatedFrom( // @lengthOf(
-)
-i16	Foo
-@lengthOf(	string_
-    )`doc`	, repeat	i64 metadata , @lengthOf( string_
-) i8 // c
-u  `line1
-line2`	,
-}
-")).
-Eval vm_compute in ("<<<M1615>>>" ++ check (runes_of_ascii "packet
-//	t
-// trailing space 
-_x {
-// packet A { u8 x, }
-// c
-char[
-3
-    ] u8x @lengthOf(
-u8x ) , @calculatedFrom(""" ++ [128512]%N ++ runes_of_ascii """ // @lengthOf(
-)
-i16	Foo
-@lengthOf(	string_
-    )`doc`	, repeat	i64 metadata , [ string_
-) i8 // c
-u  `line1
-line2`	,
-}
-")).
-Eval vm_compute in ("<<<M3792>>>" ++ check (runes_of_ascii "packet metadata {
-    Z9_ @lengthOf(i64_),
-}
-
-packet pack {
-    options1 @lengthOf(asx),
-    @leftPad(' ')
-    @calculatedFrom(""abc"")
-    // `tick` ""quote"" 'q'
-    // trailing space 
-    falsey,// trailing space 
-    char[3] rootA,
-}")).
-Eval vm_compute in ("<<<M3665>>>" ++ check (runes_of_ascii "packet Sub {
-    u8 a,
-    @calculatedFrom(""CRC16"") u16 SubSum,
-}
-root packet Frame {
-    u16 MsgType,
-    u16 BodyLen @lengthOf(Body),
-    Sub Body,
-    string note,
-    @calculatedFrom(""CRC16"") u16 Checksum,
-    u8 tail,
-}
-")).
-Eval vm_compute in ("<<<M4021>>>" ++ check (runes_of_ascii "
-packet
-lengthOf 
-{}packet Z9_ { 
-} packet uint8x {leftPad
-
-    Foo 
-    // `tick` ""quote"" 'q'
-  	`" ++ [233]%N ++ runes_of_ascii "` ,// c
-    	@calculatedFrom(
-    //
-  /// triple
-
-""\n"")@calculatedFrom(""" ++ [128512]%N ++ runes_of_ascii """ ) zchar[ 0123456789
-] metadata
-	,
-}
-")).
-Eval vm_compute in ("<<<M1145>>>" ++ check (runes_of_ascii "MetaData
-calculatedFrom
-{
-    Foo uint8x,o Packet `a\`
-, int8
-Packet
-,
-As calculatedFrom
-, } options  { T
-// trailing space 
-// c
-= u64 ; stringy =/// triple
-f64 ; BodyLength =
-// a // b
-/// triple
-true ; } 	 ")).
-Eval vm_compute in ("<<<M1309>>>" ++ check (runes_of_ascii "MetaData rootA{ }packet BodyLength{repeat
-    int32 falsey`a\`
-, i64
-rootA @lengthOf(
-falsey
-) , } root packet
-x
-    { u64 A  `" ++ [233]%N ++ runes_of_ascii "` ,} packet // @lengthOf(
-BodyLength{}
-    //x
-    options { A
-    =
-""\n"" ; }
-")).
-Eval vm_compute in ("<<<M1827>>>" ++ check (runes_of_ascii "options { trueish = ""`tick`"" ; string_= """ ++ [233]%N ++ runes_of_ascii "t" ++ [233]%N ++ runes_of_ascii """
-    // c
-    } root
-    packet body { stringy @calculatedFrom(
-""a	b"" ) `line1
-line2` , }
-packet Logon {
-    @leftPad(
-    ' ' ) //	t
-u16 string_ `u8 x,` , ,
-}
-")).
-Eval vm_compute in ("<<<M1693>>>" ++ check (runes_of_ascii "options { trueish = ; ""`tick`"" string_= """ ++ [233]%N ++ runes_of_ascii "t" ++ [233]%N ++ runes_of_ascii """
-    // c
-    } root
-    packet body { stringy @calculatedFrom(
-""a	b"" ) `line1
-line2` , }
-packet Logon {
-    @leftPad(
-    ' ' ) //	t
-u16 string_ `u8 x,` ,
-}
-")).
-Eval vm_compute in ("<<<M1833>>>" ++ check (runes_of_ascii "options { trueish = ""`tick`"" ; string_= """ ++ [233]%N ++ runes_of_ascii "t" ++ [233]%N ++ runes_of_ascii """
-    // c
-    } root
-    packet body { stringy @calculatedFrom(
-""a	b"" ) `line1
-line2` , }
-packet Logon {
-    @leftPad(
-    ' ' ) //	t
-u16 string_ `u8 x,` ,
-)
-")).
-Eval vm_compute in ("<<<M1731>>>" ++ check (runes_of_ascii "options { trueish = ""`tick`"" ; string_= """ ++ [233]%N ++ runes_of_ascii "t" ++ [233]%N ++ runes_of_ascii """
-    // c
-    } root
-    packet  { stringy @calculatedFrom(
-""a	b"" ) `line1
-line2` , }
-packet Logon {
-    @leftPad(
-    ' ' ) //	t
-u16 string_ `u8 x,` ,
-}
-")).
-Eval vm_compute in ("<<<M776>>>" ++ check (runes_of_ascii "  options // c
-{x_y_z =
-    f64 } // " ++ [27880; 37322]%N ++ runes_of_ascii "
-root
-    packet As {@tag( 255	)string BodyLength ,
-    @leftPad	(
-) match Foo as
-    body {007: i8i8 , 42 :
-metadata
-    , // @lengthOf(
-"""" :
-body, }
-, }
-
-")).
-Eval vm_compute in ("<<<M1825>>>" ++ check (runes_of_ascii "options { trueish = ""`tick`"" ; string_= """ ++ [233]%N ++ runes_of_ascii "t" ++ [233]%N ++ runes_of_ascii """
-    // c
-    } root
-    packet body { stringy @calculatedFrom(
-""a	b"" ) `line1
-line2` , }
-packet Logon {
-    @leftPad(
-    ' ' ) //	t
-u16 string_")).
-Eval vm_compute in ("<<<M830>>>" ++ check (runes_of_ascii "
-MetaData u8x {
-    i64_ u128`tab	here` ,char[]
-asx ,
-    u // packet A { u8 x, }
-BodyLength ,u64  uint8x ,
-    _x
-rootA //x
-,}
-    MetaData trueish { float64 asx// c
-, /// triple
-}")).
-Eval vm_compute in ("<<<M2054>>>" ++ check (runes_of_ascii "MetaData
-    u { }  options {
-// c
-// @lengthOf(
-float = int8 ;rootA =false ; As =	int16 // `tick` ""quote"" 'q'
-repeatCount
-    // trailing space 
-    =
-    int16
-; u8x =
-    ")).
-Eval vm_compute in ("<<<M1112>>>" ++ check (runes_of_ascii "
-packet	Packet {
-    @calculatedFrom(
-    ""1""  )
-uint8x, @leftPad	('\x00'
+packet crc {
+    matchKey @lengthOf(float),
+    @leftPad('0')
+    match i8i8 as x {
+        [65535, 10, 4294967296] : repeatCount,
+        ""// no comment"" : stringy,
+    },
+    @calculatedFrom(""a	b"")
+    crc,
     /// triple
-    ) char[] f32a @lengthOf( /// triple
-f32a // packet A { u8 x, }
-) `a\` ,  }
-
-")).
-Eval vm_compute in ("<<<M1581>>>" ++ check (runes_of_ascii "packet
-//	t
-// trailing space 
-_x {
-// packet A { u8 x, }
-// c
-char[
-3
-    ] u8x @lengthOf(
-u8x ) , @calculatedFrom(""" ++ [128512]%N ++ runes_of_ascii """ // @lengthOf(
+}")).
+Eval vm_compute in ("<<<M64>>>" ++ check (runes_of_ascii "
+MetaData x_y_z // c
+{char As ,} packet packetx { asx @calculatedFrom( """ ++ [128512]%N ++ runes_of_ascii """
+) `a\`, MetaDataX // packet A { u8 x, }
+, @leftPad
+(
+    '0'
 )
-i16	Foo
-@lengthOf(	string_")).
-Eval vm_compute in ("<<<M4484>>>" ++ check (runes_of_ascii "
-root packet matchKey
-{
-zchar[ 
-3 
-        // c
-]
+asx@lengthOf( f32a) `a\` , @lengthOf(	metadata )
+match	Packet as lengthOf { [ // `tick` ""quote"" 'q'
+""packet"", """ ++ [128512]%N ++ runes_of_ascii """] : // trailing space 
+Foo , 0
+    :
+    crc [
+10
+, ""CRC32"" ]
+:
+trueish
+//
+// " ++ [27880; 37322]%N ++ runes_of_ascii "
+,}	, } packet/// triple
+lengthOf { @lengthOf( msg_type )
+repeat zchar[7 ]  f32a `" ++ [233]%N ++ runes_of_ascii "`,
+int64 tag ,  }
+")).
+Eval vm_compute in ("<<<M1833>>>" ++ check (runes_of_ascii "
+
+  root
+	packet
 
     pack
-    @calculatedFrom(
-    ""a	b""
-    )	`doc`
 
-, } options {}
+    { match Pad as 	 // a // b
+	f32a  {
+    [
 
-MetaData
-A
+    /// triple
+  //	t
+    """"
+]
+:  leftPad ,[
+""" ++ [233]%N ++ runes_of_ascii "t" ++ [233]%N ++ runes_of_ascii """,
 
-{  int8
-
-msg_type  ,
-}
-")).
-Eval vm_compute in ("<<<M2112>>>" ++ check (runes_of_ascii "options{
-_x
-= true
-} options
-repeat o	= /// triple
-false
-    ; chars
-= ""\n"" } root packet	Pad
-/// triple
-// packet A { u8 x, }
-{	chars
-    // a // b
-    ,}")).
-Eval vm_compute in ("<<<M2412>>>" ++ check (runes_of_ascii "// c
-packet x { { @lengthOf( metadata ) repeat lengthOf
-,a1{
-trueish	,// c
-repeat//	t
-MetaDataX , } , zchar[
-    42	] rootA // `tick` ""quote"" 'q'
-,
-    }
-")).
-Eval vm_compute in ("<<<M2170>>>" ++ check (runes_of_ascii "options{
-_x
-= true
-} options
-{ o	= /// triple
-false
-    ; chars
-= ""\n"" } root packet	Pad
-/// triple
-// packet A { u8 x, }
-{ {	chars
-    // a // b
-    ,}")).
-Eval vm_compute in ("<<<M2193>>>" ++ check (runes_of_ascii "options{
-_x
-= true
-} options
-{ o	= /// triple
-false
-    ; chars
-" ++ [127]%N ++ runes_of_ascii "= ""\n"" } root packet	Pad
-/// triple
-// packet A { u8 x, }
-{	chars
-    // a // b
-    ,}")).
-Eval vm_compute in ("<<<M2126>>>" ++ check (runes_of_ascii "options{
-_x
-= true
-} options
-{ o	= /// triple
-;
-    false chars
-= ""\n"" } root packet	Pad
-/// triple
-// packet A { u8 x, }
-{	chars
-    // a // b
-    ,}")).
-Eval vm_compute in ("<<<M2129>>>" ++ check (runes_of_ascii "options{
-_x
-= true
-} options
-{ o	= /// triple
-false
-     chars
-= ""\n"" } root packet	Pad
-/// triple
-// packet A { u8 x, }
-{	chars
-    // a // b
-    ,}")).
-Eval vm_compute in ("<<<M4356>>>" ++ check (runes_of_ascii "// " ++ [27880; 37322]%N ++ runes_of_ascii "
-MetaData int {
-    // `tick` ""quote"" 'q'
-    char[4294967296] packetx `line1
-    line2`,
-    rootA matchKey `two words`,
-    matchKey Packet,
-}")).
-Eval vm_compute in ("<<<M3572>>>" ++ check (runes_of_ascii "root packet // c1
-P
-    // c2
-{
-    // c3
-repeat // c4
-string ss // c6
-,
-    // c7
-repeat // c8
-u16
-    // c9
-ns
-    // c10
-, // c11
-}
-    // c12
-")).
-Eval vm_compute in ("<<<M306>>>" ++ check (runes_of_ascii "packet
-    u128
-{ @lengthOf( options1
-)repeat int`" ++ [28040; 24687; 31867; 22411]%N ++ runes_of_ascii "` ,
-@calculatedFrom(
-    """" )
-repeat
-f32 Z9_	,
-zchar[
 007
-] msg_type
-`doc`
-    ,
-}
-")).
-Eval vm_compute in ("<<<M611>>>" ++ check (runes_of_ascii "root packet // " ++ [27880; 37322]%N ++ runes_of_ascii "
-_x	{repeat int64 trueish//x
-, string calculatedFrom , Z9_ As
-    , match tag
-as trueish { 65535:  repeatCount
-, }//
-, }
-")).
-Eval vm_compute in ("<<<M1775>>>" ++ check (runes_of_ascii "options { trueish = ""`tick`"" ; string_= """ ++ [233]%N ++ runes_of_ascii "t" ++ [233]%N ++ runes_of_ascii """
-    // c
-    } root
-    packet body { stringy @calculatedFrom(
-""a	b"" ) `line1
-line2` ,")).
-Eval vm_compute in ("<<<M4008>>>" ++ check (runes_of_ascii "  MetaData float 	 // c
-		{	float64
-    charz `
-` ,
+]: //	t
 
-    }root
-    packet	chars{
-@rightPad	( 
-'0'
+f32a  //x
+  	,
 
-    )
+    65535
 
-    Foo  ,
-	}
-")).
-Eval vm_compute in ("<<<M541>>>" ++ check (runes_of_ascii "// @lengthOf(
-options {
-u128
-    =  ' '  chars
-=
-    char ; float=""// no comment"" repeatCount
-    //x
-    =
-    false;
-}
-")).
-Eval vm_compute in ("<<<M3315>>>" ++ check (runes_of_ascii "root packet
-// c
-matchKey { zchar[ 3 ] pack @calculatedFrom( ""a	b"" ) `doc` , } options { } MetaData A { int8 msg_type , }")).
-Eval vm_compute in ("<<<M3347>>>" ++ check (runes_of_ascii "root packet matchKey { zchar[ 3 ] pack @calculatedFrom( ""a	b"" ) `doc` , } options { } MetaData
-// c
-A { int8 msg_type , }")).
-Eval vm_compute in ("<<<M4077>>>" ++ check (runes_of_ascii "options{ MetaDataX
+    :
+    body
 
-    =
-""\" ++ [233]%N ++ runes_of_ascii """}options
-    {
+, 
+	// @lengthOf(
+	10
+	:u128,
+42	:  // trailing space 
+    pack ,	},}options
+    {// " ++ [27880; 37322]%N ++ runes_of_ascii "
+o
 
-// @lengthOf(
-//	t
-    Logon= 
-""1""x_y_z = 65535 }MetaData
+=  
+  // c
 
-//	t
-u8x{ }
-")).
-Eval vm_compute in ("<<<M1419>>>" ++ check (runes_of_ascii "
+f64 ;
+	x_y_z  //
+  =	/// triple
+  u32
+
+len =
+    42;
+
+    falsey	=
+true
+
+;} ")).
+Eval vm_compute in ("<<<M1463>>>" ++ check (runes_of_ascii "// top
+packet // c0
+B // c1a
+  // c1b
+{ // c2
+u8
+    // c3
+a , // c5a
+  // c5b
+string s // c7
+,
+    // c8
+} // c9a
+  // c9b
+root // c10
 packet
-    falsey { Header""packet""@calculatedFrom(  ) , char[
-    0123456789 ] packetx
-    , } // `tick` ""quote"" 'q'")).
-Eval vm_compute in ("<<<M3963>>>" ++ check (runes_of_ascii "packet A {
-    u16 len @lengthOf(body) `a
-    b`,
-    u32 crc @calculatedFrom(""CRC32"") `a
-    b`,
-    string body,
-}")).
-Eval vm_compute in ("<<<M589>>>" ++ check (runes_of_ascii "
-options
-    {
-} MetaData u8x{	i32 int // a // b
-, i64 A ,
-    o Z9_ `tab	here`
-    ,
-    // @lengthOf(
+    // c11
+P
+    // c12
+{ // c13a
+  // c13b
+u16 // c14a
+  // c14b
+L // c15
+@lengthOf(
+    // c16
+B ) // c18
+,
+    // c19
+B
+    // c20
+, // c21
+u8
+    // c22
+t // c23a
+  // c23b
+, } // c25a
+  // c25b
+")).
+Eval vm_compute in ("<<<M197>>>" ++ check (runes_of_ascii "packet	zchar { char[]  i64_,
+    // " ++ [128512]%N ++ runes_of_ascii " emoji
+    @calculatedFrom(	""// no comment"" ) match charz
+    as tag
+{ [""it's""
+, 4294967296
+    ,/// triple
+""a	b""
+    , """ ++ [28040; 24687]%N ++ runes_of_ascii """
+,""" ++ [128512]%N ++ runes_of_ascii """
+    ,  255 ,007 ] // packet A { u8 x, }
+: i64_
+, [	0123456789 ,3
+, 00 ]: // `tick` ""quote"" 'q'
+Packet , [ """ ++ [233]%N ++ runes_of_ascii "t" ++ [233]%N ++ runes_of_ascii """ ]
+:a1 ,	}
+,
     }
 ")).
-Eval vm_compute in ("<<<M2>>>" ++ check (runes_of_ascii "packet i8i8
-    {
-char[
-1
-] f32a@calculatedFrom(//	t
-""\n"" )
-    // packet A { u8 x, }
-    , repeat charz,}
+Eval vm_compute in ("<<<M509>>>" ++ check (runes_of_ascii "root packet tag { }  packet MetaDataX MetaDataX{char[007	]
+// c
+/// triple
+asx  @calculatedFrom( ""a\""b""
+) `say ""hi""`// " ++ [27880; 37322]%N ++ runes_of_ascii "
+,  @tag(4294967296 )
+    char[1//x
+] packetx @calculatedFrom(""a\""b""
+    ) ,
+// " ++ [128512]%N ++ runes_of_ascii " emoji
+// a // b
+@calculatedFrom(""" ++ [233]%N ++ runes_of_ascii "t" ++ [233]%N ++ runes_of_ascii """  ) repeat pack // " ++ [27880; 37322]%N ++ runes_of_ascii "
+,
+    } // c")).
+Eval vm_compute in ("<<<M657>>>" ++ check (runes_of_ascii "root packet tag { }  packet MetaDataX{char[007	]
+// c
+/// triple
+asx  @calculatedFrom( ""a\""b""
+) `say ""hi""`// " ++ [27880; 37322]%N ++ runes_of_ascii "
+,  @tag(4294967296 )
+    char[1//x
+] packetx @calculatedFrom(@tag""a\""b""
+    ) ,
+// " ++ [128512]%N ++ runes_of_ascii " emoji
+// a // b
+@calculatedFrom(""" ++ [233]%N ++ runes_of_ascii "t" ++ [233]%N ++ runes_of_ascii """  ) repeat pack // " ++ [27880; 37322]%N ++ runes_of_ascii "
+,
+    } // c")).
+Eval vm_compute in ("<<<M515>>>" ++ check (runes_of_ascii "root packet tag { }  packet MetaDataX char[{007	]
+// c
+/// triple
+asx  @calculatedFrom( ""a\""b""
+) `say ""hi""`// " ++ [27880; 37322]%N ++ runes_of_ascii "
+,  @tag(4294967296 )
+    char[1//x
+] packetx @calculatedFrom(""a\""b""
+    ) ,
+// " ++ [128512]%N ++ runes_of_ascii " emoji
+// a // b
+@calculatedFrom(""" ++ [233]%N ++ runes_of_ascii "t" ++ [233]%N ++ runes_of_ascii """  ) repeat pack // " ++ [27880; 37322]%N ++ runes_of_ascii "
+,
+    } // c")).
+Eval vm_compute in ("<<<M555>>>" ++ check (runes_of_ascii "root packet tag { }  packet MetaDataX{char[007	]
+// c
+/// triple
+asx  @calculatedFrom( ""a\""b""
+) ,// " ++ [27880; 37322]%N ++ runes_of_ascii "
+`say ""hi""`  @tag(4294967296 )
+    char[1//x
+] packetx @calculatedFrom(""a\""b""
+    ) ,
+// " ++ [128512]%N ++ runes_of_ascii " emoji
+// a // b
+@calculatedFrom(""" ++ [233]%N ++ runes_of_ascii "t" ++ [233]%N ++ runes_of_ascii """  ) repeat pack // " ++ [27880; 37322]%N ++ runes_of_ascii "
+,
+    } // c")).
+Eval vm_compute in ("<<<M643>>>" ++ check (runes_of_ascii "root packet tag { }  packet MetaDataX{char[007	]
+// c
+/// triple
+asx  @calculatedFrom( ""a\""b""
+) `say ""hi""`// " ++ [27880; 37322]%N ++ runes_of_ascii "
+,  @tag(4294967296 )
+    char[1//x
+] packetx @calculatedFrom(""a\""b""
+    ) ,
+// " ++ [128512]%N ++ runes_of_ascii " emoji
+// a // b
+@calculatedFrom(""" ++ [233]%N ++ runes_of_ascii "t" ++ [233]%N ++ runes_of_ascii """  ) repeat pack // " ++ [27880; 37322]%N ++ runes_of_ascii "
+
+    } // c")).
+Eval vm_compute in ("<<<M503>>>" ++ check (runes_of_ascii "root packet tag { }   MetaDataX{char[007	]
+// c
+/// triple
+asx  @calculatedFrom( ""a\""b""
+) `say ""hi""`// " ++ [27880; 37322]%N ++ runes_of_ascii "
+,  @tag(4294967296 )
+    char[1//x
+] packetx @calculatedFrom(""a\""b""
+    ) ,
+// " ++ [128512]%N ++ runes_of_ascii " emoji
+// a // b
+@calculatedFrom(""" ++ [233]%N ++ runes_of_ascii "t" ++ [233]%N ++ runes_of_ascii """  ) repeat pack // " ++ [27880; 37322]%N ++ runes_of_ascii "
+,
+    } // c")).
+Eval vm_compute in ("<<<M227>>>" ++ check (runes_of_ascii "
+root packet
+rootA { } root packet
+// a // b
+// trailing space 
+_x // " ++ [27880; 37322]%N ++ runes_of_ascii "
+{
+    i64_, // a // b
+} MetaData options1{ // `tick` ""quote"" 'q'
+a1 float `crlf
+line`
+,
+    u8x
+falsey // " ++ [128512]%N ++ runes_of_ascii " emoji
+`" ++ [233]%N ++ runes_of_ascii "`,
+f32a MetaDataX,int64 u8x, } packet f32a {}
 ")).
-Eval vm_compute in ("<<<M3563>>>" ++ check (runes_of_ascii "options {
+Eval vm_compute in ("<<<M267>>>" ++ check (runes_of_ascii "root packet
+i8i8
+    { _x@lengthOf(chars
+),
+    char[	7]
+packetx
+    /// triple
+    `say ""hi""`
+,
+    // c
+    }root packet string_ {
+    //
+    repeat// `tick` ""quote"" 'q'
+options1// c
+`u8 x,`	,
+    }
+options {	}")).
+Eval vm_compute in ("<<<M1699>>>" ++ check (runes_of_ascii "// top
+packet FooBar {
+    // c2
+    u8 a,// c5a
+    // c5b
+}// c6a
+
+// c6b
+packet foo_bar {
+    // c9a
+    // c9b
+    u16 b,
+}
+
+// c13
+root packet R {
+    // c17
+    FooBar,// c19
+    foo_bar,
+}")).
+Eval vm_compute in ("<<<M1300>>>" ++ check (runes_of_ascii "// top
+MetaData // c0
+body // c1
+{ // c2
+i64 // c3
+pack // c4
+`it's` // c5
+, // c6
+} // c7
+packet // c8
+stringy // c9
+{ // c10
+int16 // c11
+calculatedFrom // c12
+, // c13
+} // c14
+")).
+Eval vm_compute in ("<<<M405>>>" ++ check (runes_of_ascii "packet
+    // `tick` ""quote"" 'q'
+    crc
+// packet A { u8 x, }
+//	t
+{
+u32 a1 a1 ,
+    // trailing space 
+    roots
+charz //
+`two words`,	}
+    MetaData int {
+} /// triple")).
+Eval vm_compute in ("<<<M681>>>" ++ check (runes_of_ascii "root pac%ket len // trailing space 
+{
+// " ++ [27880; 37322]%N ++ runes_of_ascii "
+//	t
+char[10
+] metadata	@lengthOf( o ) `crlf
+line`,
+    @rightPad
+( ' '
+) string
+    Header @calculatedFrom( ""a\\""
+    ), }
+")).
+Eval vm_compute in ("<<<M708>>>" ++ check (runes_of_ascii "root packet len // trailing space 
+char[
+// " ++ [27880; 37322]%N ++ runes_of_ascii "
+//	t
+{10
+] metadata	@lengthOf( o ) `crlf
+line`,
+    @rightPad
+( ' '
+) string
+    Header @calculatedFrom( ""a\\""
+    ), }
+")).
+Eval vm_compute in ("<<<M444>>>" ++ check (runes_of_ascii "packet
+    // `tick` ""quote"" 'q'
+    crc
+// packet A { u8 x, }
+//	t
+{
+u32 a1 ,
+    // trailing space 
+    roots
+charz //
+`two words`,	}
+    MetaData  {
+} /// triple")).
+Eval vm_compute in ("<<<M2081>>>" ++ check (runes_of_ascii "packet A {
+    match k as n {
+        [
+            1, ""bb"", 007, ""d"", 5,
+            ""f"", 7, ""h"", 9, ""j"",
+            11
+        ] : B,
+        2 : C,
+    },
+}")).
+Eval vm_compute in ("<<<M140>>>" ++ check (runes_of_ascii "packet Logon {
+    stringy
+crc	`crlf
+line`
+, T
+@calculatedFrom( ""a\""b""
+    ) // packet A { u8 x, }
+`u8 x,` // " ++ [27880; 37322]%N ++ runes_of_ascii "
+, }  options {	leftPad =  '\x00'}
+")).
+Eval vm_compute in ("<<<M1797>>>" ++ check (runes_of_ascii "packet A {
+    Inner {
+        u8 x `x
+                `,
+        Deep {
+            u8 y `x
+                        `,
+        },
+    },
+}")).
+Eval vm_compute in ("<<<M1491>>>" ++ check (runes_of_ascii "packet A {
+    u8 a,
+}
+packet B {
+    u16 b,
+}
+root packet P {
+    u8 K,
+    match K as M {
+        1 : A,
+        1 : B,
+    },
+}
+")).
+Eval vm_compute in ("<<<M1456>>>" ++ check (runes_of_ascii "packet B {
+    u8 a,
+}
+root packet P {
+    u8 K,
+    u64 L @lengthOf(Body),
+    match K as Body {
+        1 : B,
+    },
+}
+")).
+Eval vm_compute in ("<<<M1250>>>" ++ check (runes_of_ascii "root packet matchKey { zchar[ 3 ] pack @calculatedFrom( ""a	b"" ) `doc` , }
+// c
+options { } MetaData A { int8 msg_type , }")).
+Eval vm_compute in ("<<<M1749>>>" ++ check (runes_of_ascii "  packet  chars {	}
+packet
+
+    MetaDataX	{
+    @tag(  42  )	// c
+
+	i16
+
+string_  ,	repeat
+    x
+`say ""hi""` ,
+    } ")).
+Eval vm_compute in ("<<<M1862>>>" ++ check (runes_of_ascii "  MetaData
+float 	 // c
+
+{  float64 charz`
+` , }root
+
+packet
+
+    chars 
+{
+@rightPad
+
+    ( '0')
+
+Foo
+
+, } ")).
+Eval vm_compute in ("<<<M1965>>>" ++ check (runes_of_ascii "packet crc {
+    u32 a1,
+    // trailing space 
+    float32 charz `two words`,
+}
+
+MetaData int {
+}/// triple")).
+Eval vm_compute in ("<<<M1471>>>" ++ check (runes_of_ascii "options {
     LittleEndian = true;
 }
 root packet P {
     u16 a,
-    u32 Sum @calculatedFrom(""CR\
-C32""),
-}
-")).
-Eval vm_compute in ("<<<M3762>>>" ++ check (runes_of_ascii "packet	metadata{ Logon{ 	 // c
-    A	`" ++ [28040; 24687; 31867; 22411]%N ++ runes_of_ascii "` ,
-tag
-o, }
-    , 
-zchar
-
-len
-	`// not a comment`
-    ,
+    u32 Sum @calculatedFrom(""CRC32""),
 }
 ")).
 Eval vm_compute in ("<<<M37>>>" ++ check (runes_of_ascii "MetaData
@@ -2475,251 +1098,152 @@ chars { f32 metadata , i64
 `
 ` // `tick` ""quote"" 'q'
 ,}")).
-Eval vm_compute in ("<<<M2969>>>" ++ check (runes_of_ascii "packet A {
+Eval vm_compute in ("<<<M557>>>" ++ check (runes_of_ascii "root packet tag { }  packet MetaDataX{char[007	]
+// c
+/// triple
+asx  @calculatedFrom( ""a\""b""
+)")).
+Eval vm_compute in ("<<<M1615>>>" ++ check (runes_of_ascii "MetaData body {
+    // c
+    i64 pack `it's`,
+}
+
+packet stringy {
+    int16 calculatedFrom,
+}")).
+Eval vm_compute in ("<<<M869>>>" ++ check (runes_of_ascii "packet A {
   match k as n {
-    [""a"", 22, ""c c"", 4, ""e"", 66, ""g"", 8, ""i"", 10] : B
+    [1, 22, ""c c"", 4, 5, ""f"", 7, 8, ""i""] : B
     2 : C
   },
 }")).
-Eval vm_compute in ("<<<M3893>>>" ++ check (runes_of_ascii "
-packet
+Eval vm_compute in ("<<<M1209>>>" ++ check (runes_of_ascii "MetaData float { float64 charz `
+` , } root packet chars { @rightPad ( '0'
+// c
+) Foo , }")).
+Eval vm_compute in ("<<<M1420>>>" ++ check (runes_of_ascii "packet chars { } packet MetaDataX { @tag( 42 ) i16 string_ , // c
+repeat x `say ""hi""` , }")).
+Eval vm_compute in ("<<<M2077>>>" ++ check (runes_of_ascii "packet A {
+    match k as n {
+        [1, 22, ""c c"", 4, 5] : B,
+        2 : C,
+    },
+}")).
+Eval vm_compute in ("<<<M1150>>>" ++ check (runes_of_ascii "packet metadata { Logon { A `" ++ [28040; 24687; 31867; 22411]%N ++ runes_of_ascii "` , tag o , } , zchar // c
+len `// not a comment` , }")).
+Eval vm_compute in ("<<<M1355>>>" ++ check (runes_of_ascii "packet o { repeat Logon uint8x , }
+// c
+options { asx = zchar[ 3 ] stringy = '\x00' }")).
+Eval vm_compute in ("<<<M1650>>>" ++ check (runes_of_ascii "
+// c
+	  packet
 
-Inner
-{
-u8
-
-    a
-
-,
-    } root
-packet P
-{ Inner
-ref_obj ,
-	u8
 x
 
-    ,
+    {
+@rightPad
+	(
+    )
+repeat	roots
+Logon
+	`doc` ,
+    }
 
-    }")).
-Eval vm_compute in ("<<<M2971>>>" ++ check (runes_of_ascii "packet A {
-  match k as n {
-    [1, 22, ""c c"", 4, 5, ""f"", 7, 8, ""i"", 10] : B
-    2 : C
-  },
-}")).
-Eval vm_compute in ("<<<M3538>>>" ++ check (runes_of_ascii "packet Inner
-
-{u8
-
-a , }	root packet
-	P
-	{ repeat
-
-    Inner items , u8
-    x
-
-    , 
-}")).
-Eval vm_compute in ("<<<M2933>>>" ++ check (runes_of_ascii "packet A {
-  match k as n {
-    [""a"", ""bb"", 007, ""d"", ""e"", 66, ""g""] : B,
-    2 : C
-  },
-}")).
-Eval vm_compute in ("<<<M3295>>>" ++ check (runes_of_ascii "MetaData float { float64 charz `
-` , } root packet chars { @rightPad ( // c
-'0' ) Foo , }")).
-Eval vm_compute in ("<<<M3506>>>" ++ check (runes_of_ascii "packet chars { } packet MetaDataX { @tag( 42 ) i16
+")).
+Eval vm_compute in ("<<<M1316>>>" ++ check (runes_of_ascii "MetaData body { i64 pack `it's`
 // c
-string_ , repeat x `say ""hi""` , }")).
-Eval vm_compute in ("<<<M2308>>>" ++ check (runes_of_ascii "options
-{ } options { BodyLength= u16 Header= f64 ; caf" ++ [233]%N ++ runes_of_ascii "_1 =
-    true
-    ; } // a // b")).
-Eval vm_compute in ("<<<M3921>>>" ++ check (runes_of_ascii "packet A {
-    B b `a
-        b`,
-    B `a
-        b`,
-    repeat B bs `a
-        b`,
-}")).
-Eval vm_compute in ("<<<M3214>>>" ++ check (runes_of_ascii "packet
+, } packet stringy { int16 calculatedFrom , }")).
+Eval vm_compute in ("<<<M2103>>>" ++ check (runes_of_ascii "  packet A {
+
+    B 
+b
+
+`a
+
+b`	,
+    B`a
+
+b`
+	,
+
+    repeat
+B  bs `a
+
+b` ,}
+")).
+Eval vm_compute in ("<<<M1690>>>" ++ check (runes_of_ascii "
+
+  packet x
 // c
-metadata { Logon { A `" ++ [28040; 24687; 31867; 22411]%N ++ runes_of_ascii "` , tag o , } , zchar len `// not a comment` , }")).
-Eval vm_compute in ("<<<M3246>>>" ++ check (runes_of_ascii "packet metadata { Logon { A `" ++ [28040; 24687; 31867; 22411]%N ++ runes_of_ascii "` , tag o , } , zchar len `// not a comment` ,
-// c
-}")).
-Eval vm_compute in ("<<<M3437>>>" ++ check (runes_of_ascii "packet o { repeat Logon // c
-uint8x , } options { asx = zchar[ 3 ] stringy = '\x00' }")).
-Eval vm_compute in ("<<<M1397>>>" ++ check (runes_of_ascii "root packet SimpleMessage {
-	uint16 MsgType `" ++ [28040; 24687; 31867; 22411]%N ++ runes_of_ascii "`,
-	string JsonBody `Json" ++ [23383; 31526; 20018; 28040; 24687; 20307]%N ++ runes_of_ascii "`,
-}")).
-Eval vm_compute in ("<<<M3991>>>" ++ check (runes_of_ascii "packet Header {
-}
+	{ @rightPad(	)
 
-MetaData Packet {
-    uint64 As `say ""hi""`,
-}
-// trailing space ")).
-Eval vm_compute in ("<<<M3412>>>" ++ check (runes_of_ascii "MetaData body { i64 pack `it's` , } packet stringy // c
-{ int16 calculatedFrom , }")).
-Eval vm_compute in ("<<<M4607>>>" ++ check (runes_of_ascii "MetaData
-    M { u8
+    repeat roots
 
-    x `d`
+Logon `doc`
 
-    ,  y
-
-    z 
-`e`,char[ 3	] 
-w
-    ,
-	} ")).
-Eval vm_compute in ("<<<M2924>>>" ++ check (runes_of_ascii "packet A {
-  match k as n {
-    [1, 22, 007, 4, 5, 66, 7] : B
-    2 : C
-  },
-}")).
-Eval vm_compute in ("<<<M3902>>>" ++ check (runes_of_ascii "packet
-    A {
-match 
-k
-
-as
-n  {
-    [ 1
 ,
-22
-    ,
-	007  ] :B,
-2 : C}	, }")).
-Eval vm_compute in ("<<<M2889>>>" ++ check (runes_of_ascii "packet A {
+	}
+
+")).
+Eval vm_compute in ("<<<M1710>>>" ++ check (runes_of_ascii "// top
+root packet u128 {
+    // c3
+    chars `it's`,
+    // c6
+}
+// c7")).
+Eval vm_compute in ("<<<M698>>>" ++ check (runes_of_ascii "root packet len // trailing space 
+{
+// " ++ [27880; 37322]%N ++ runes_of_ascii "
+//	t
+char[10
+] metadata")).
+Eval vm_compute in ("<<<M780>>>" ++ check (runes_of_ascii "packet A {
   match k as n {
-    [1, ""bb"", 007, ""d""] : B
+    [""a"", 22] : B
     2 : C
   },
 }")).
-Eval vm_compute in ("<<<M4546>>>" ++ check (runes_of_ascii "  packet
-float	//	t
-      { //
-  }MetaData i8i8
-	{ 
-uint8x	i8i8 
-, }
-")).
-Eval vm_compute in ("<<<M2876>>>" ++ check (runes_of_ascii "packet A {
-  match k as n {
-    [1, ""bb"", 007] : B
-    2 : C
-  },
-}")).
-Eval vm_compute in ("<<<M526>>>" ++ check (runes_of_ascii "//
-MetaData o { i16 zchar // a // b
-, char[//	t
-00
-] string_	, }")).
-Eval vm_compute in ("<<<M1157>>>" ++ check (runes_of_ascii "
-MetaData lengthOf
-    {	uint32
-T `crlf
-line` ,}
-/// triple
-")).
-Eval vm_compute in ("<<<M2340>>>" ++ check (runes_of_ascii "// c
-packet x { @lengthOf( metadata ) repeat lengthOf
-,a1{")).
-Eval vm_compute in ("<<<M3371>>>" ++ check (runes_of_ascii "packet x { @rightPad // c
-( ) repeat roots Logon `doc` , }")).
+Eval vm_compute in ("<<<M1276>>>" ++ check (runes_of_ascii "packet // c
+x { @rightPad ( ) repeat roots Logon `doc` , }")).
 Eval vm_compute in ("<<<M195>>>" ++ check (runes_of_ascii "packet i8i8// a // b
 { a1`{ , }` ,
 // a // b
 // " ++ [27880; 37322]%N ++ runes_of_ascii "
 } //x")).
-Eval vm_compute in ("<<<M3177>>>" ++ check (runes_of_ascii "packet A { repeat // a
- B // b
- b // c
- `d` // e
- , }")).
-Eval vm_compute in ("<<<M3570>>>" ++ check (runes_of_ascii "
-
-  root
-
-    packet
-P
-
-{ string
-s
-
-    ,	}
-")).
-Eval vm_compute in ("<<<M346>>>" ++ check (runes_of_ascii "MetaData leftPad // `tick` ""quote"" 'q'
-{
-    }")).
-Eval vm_compute in ("<<<M272>>>" ++ check (runes_of_ascii "
-root  packet zchar
-    {zchar[007] Foo , }")).
-Eval vm_compute in ("<<<M3049>>>" ++ check (runes_of_ascii "options {
-    a = ""x\
-y"";
-    b = ""x\
-y""
+Eval vm_compute in ("<<<M537>>>" ++ check (runes_of_ascii "root packet tag { }  packet MetaDataX{char[007	]")).
+Eval vm_compute in ("<<<M1932>>>" ++ check (runes_of_ascii "packet A {
+    u8 x `a
+        b
+      c`,
 }")).
-Eval vm_compute in ("<<<M3193>>>" ++ check (runes_of_ascii "root packet u128 // c
+Eval vm_compute in ("<<<M1104>>>" ++ check (runes_of_ascii "root packet u128 // c
 { chars `it's` , }")).
-Eval vm_compute in ("<<<M2250>>>" ++ check (runes_of_ascii "options
-{ } options { BodyLength= u16")).
-Eval vm_compute in ("<<<M2787>>>" ++ check ([11; 65533]%N ++ runes_of_ascii "7" ++ [65533; 442; 12]%N ++ runes_of_ascii "r" ++ [951]%N ++ runes_of_ascii "{
-7" ++ [65533]%N ++ runes_of_ascii "	" ++ [65533]%N ++ runes_of_ascii "T" ++ [65533; 65533]%N ++ runes_of_ascii "+" ++ [65533]%N ++ runes_of_ascii "U" ++ [65533; 65533]%N ++ runes_of_ascii "Z" ++ [65533; 65533]%N ++ runes_of_ascii "?le" ++ [2015; 30]%N ++ runes_of_ascii "e?Ye" ++ [65533]%N ++ runes_of_ascii "=")).
-Eval vm_compute in ("<<<M4559>>>" ++ check (runes_of_ascii "packet A {
-    u8 x `tab
-    	x`,
-}")).
-Eval vm_compute in ("<<<M2731>>>" ++ check (runes_of_ascii "( '\x00' = _x root , ] string ( (")).
-Eval vm_compute in ("<<<M4427>>>" ++ check (runes_of_ascii "
-
-  packet  len
-    {
-
-    }
+Eval vm_compute in ("<<<M137>>>" ++ check (runes_of_ascii "//x
+MetaData falsey{ string Pad , }
 ")).
-Eval vm_compute in ("<<<M3072>>>" ++ check (runes_of_ascii "packet A {
- u8 x `d" ++ [160]%N ++ runes_of_ascii "`, // c" ++ [160]%N ++ runes_of_ascii "
-}")).
-Eval vm_compute in ("<<<M4598>>>" ++ check (runes_of_ascii "
+Eval vm_compute in ("<<<M1479>>>" ++ check (runes_of_ascii "root packet P {
+    string s,
+}
+")).
+Eval vm_compute in ("<<<M1071>>>" ++ check (runes_of_ascii "MetaData M {
+}// c
+packet A {}")).
+Eval vm_compute in ("<<<M1917>>>" ++ check (runes_of_ascii "
 packet
-	A	{  u8 x
 
-`
-`
-, }
+    A{
+	}
+// c" ++ [5760]%N)).
+Eval vm_compute in ("<<<M1743>>>" ++ check (runes_of_ascii "
+packet
+A	{ 
+}// c" ++ [12]%N ++ runes_of_ascii "
 ")).
-Eval vm_compute in ("<<<M2807>>>" ++ check (runes_of_ascii "Nx>%""+FOjL#!9!ewSS+QVDXT-b5")).
-Eval vm_compute in ("<<<M1342>>>" ++ check (runes_of_ascii "// packet A { u8 x, }
- 	 ")).
-Eval vm_compute in ("<<<M2581>>>" ++ check (runes_of_ascii "packet A { char[ 3 ] , }")).
-Eval vm_compute in ("<<<M2815>>>" ++ check (runes_of_ascii "int64 uint32 u16 false")).
-Eval vm_compute in ("<<<M2620>>>" ++ check (runes_of_ascii "packet A { @tag(1) }")).
-Eval vm_compute in ("<<<M2646>>>" ++ check (runes_of_ascii "MetaData M { x y, }")).
-Eval vm_compute in ("<<<M3066>>>" ++ check (runes_of_ascii "// c" ++ [12288]%N ++ runes_of_ascii "
-packet A {
-}")).
-Eval vm_compute in ("<<<M3167>>>" ++ check (runes_of_ascii "packet A { // a
- }")).
-Eval vm_compute in ("<<<M3133>>>" ++ check (runes_of_ascii "packet A {
-}// c" ++ [65279]%N)).
-Eval vm_compute in ("<<<M3156>>>" ++ check (runes_of_ascii "
-
-  packet A {}")).
-Eval vm_compute in ("<<<M1334>>>" ++ check (runes_of_ascii "options
-{ }
-")).
-Eval vm_compute in ("<<<M2837>>>" ++ check (runes_of_ascii "xc" ++ [65533; 65533; 65533]%N ++ runes_of_ascii " " ++ [65533; 1320]%N ++ runes_of_ascii "9" ++ [25]%N)).
-Eval vm_compute in ("<<<M2437>>>" ++ check (runes_of_ascii "zchar[]")).
-Eval vm_compute in ("<<<M3144>>>" ++ check (runes_of_ascii "// c x")).
-Eval vm_compute in ("<<<M3094>>>" ++ check (runes_of_ascii "// c" ++ [8232]%N)).
-Eval vm_compute in ("<<<M2543>>>" ++ check (runes_of_ascii "[[]]")).
-Eval vm_compute in ("<<<M2549>>>" ++ check (runes_of_ascii "a" ++ [11]%N ++ runes_of_ascii "b")).
-Eval vm_compute in ("<<<M2556>>>" ++ check ([233]%N ++ runes_of_ascii "a")).
+Eval vm_compute in ("<<<M986>>>" ++ check (runes_of_ascii "packet A {
+}
+// c" ++ [133]%N)).
+Eval vm_compute in ("<<<M502>>>" ++ check (runes_of_ascii "root packet tag {")).
+Eval vm_compute in ("<<<M762>>>" ++ check (runes_of_ascii "false , uint16")).
+Eval vm_compute in ("<<<M748>>>" ++ check (runes_of_ascii "6y" ++ [65533; 142; 0]%N)).
+Eval vm_compute in ("<<<M721>>>" ++ check (runes_of_ascii " ")).
